@@ -412,13 +412,13 @@ Proof.
   intros B ps body G pk r H. unfold kfn in H.
   destruct (capctx B CD (free_vars ps body)) as [G0|] eqn:EG; [|discriminate].
   set (pk0 := map (pkind body) ps) in *. set (B0 := rev (combine ps pk0)) in *.
-  destruct (kblock (Some (pk0, KD)) B0 G0 body) as [[B1 rets0]|] eqn:Eb0; [|discriminate].
+  destruct (kblock (Some (pk0, KD)) false B0 G0 body) as [[B1 rets0]|] eqn:Eb0; [|discriminate].
   set (r0 := rkind body rets0) in *.
-  assert (Hx : exists B' rets, kblock (Some (pk0, r0)) B0 G0 body = Some (B', rets) /\
+  assert (Hx : exists B' rets, kblock (Some (pk0, r0)) false B0 G0 body = Some (B', rets) /\
                  (if nodupb ps && forallb src_nameb ps && forallb (kind_eqb r0) rets then Some (G0, pk0, r0) else None) = Some (G, pk, r)).
   { destruct (kind_eqb r0 KD) eqn:Er.
     - apply kind_eqb_eq in Er. rewrite Er in *. exists B1, rets0. split; [exact Eb0|exact H].
-    - destruct (kblock (Some (pk0, r0)) B0 G0 body) as [[B2 rets]|] eqn:Eb; [|discriminate]. exists B2, rets. split; [reflexivity|exact H]. }
+    - destruct (kblock (Some (pk0, r0)) false B0 G0 body) as [[B2 rets]|] eqn:Eb; [|discriminate]. exists B2, rets. split; [reflexivity|exact H]. }
   destruct Hx as (B' & rets & Eb & Hc).
   destruct (nodupb ps && forallb src_nameb ps && forallb (kind_eqb r0) rets) eqn:Ec; [|discriminate].
   inversion Hc; subst G0 pk r. rewrite !andb_true_iff in Ec. destruct Ec as [[Hn Hs] Hr].
@@ -466,7 +466,7 @@ Proof.
   destruct (kfn_sound B ps body G pk r Ef) as [Hkf HG].
   pose proof Hinst as Hinst0.
   rewrite ec_EFn in Hc, Hend, Hinst |- *. cbv zeta in *. cbn [fst snd length] in *.
-  set (fb := snd (bc path (S d) lr k0 body)) in *. set (loc := fn_name path (k0 + length fb)) in *.
+  set (fb := snd (bc path (S d) lr None k0 body)) in *. set (loc := fn_name path (k0 + length fb)) in *.
   apply code_at_cons in Hc as [Hi _].
   set (caps := free_vars ps body) in *.
   set (i1 := mkI OP_MAKE_FUNCTION (loc :: caps)) in *.
@@ -1155,85 +1155,155 @@ Lemma smid_same : forall b s a g a' g', xrun prog name code a g a' g' -> frames 
   act_same a a' -> a_ss a' = a_ss a -> smid b s a g b s a' g'.
 Proof. intros. eapply smid_of_mid. apply (mid_same b 0); assumption. Qed.
 
+(* progress up to a jump out of nested blocks (break / continue): the block frames are gone *)
+Definition jmid (b0 : cinj) (s0 : rstate) (a0 : act) (g0 : gstate) (b : cinj) (s : rstate) (a : act) (g : gstate) : Prop :=
+  xrun prog name code a0 g0 a g /\ bext b0 b s0 g0 /\ act_same a0 a /\ a_ss a0 <= a_ss a /\ keep b0 g0 g /\ lens s0 s g0 g.
+Lemma jmid_of_smid : forall b0 s0 a0 g0 b s a g, smid b0 s0 a0 g0 b s a g -> jmid b0 s0 a0 g0 b s a g.
+Proof. unfold smid, jmid. intros b0 s0 a0 g0 b s a g (R & E & T & A & S & K & L). auto 8. Qed.
+Lemma jmid_trans : forall b0 s0 a0 g0 b1 s1 a1 g1 b2 s2 a2 g2,
+  jmid b0 s0 a0 g0 b1 s1 a1 g1 -> jmid b1 s1 a1 g1 b2 s2 a2 g2 -> jmid b0 s0 a0 g0 b2 s2 a2 g2.
+Proof.
+  unfold jmid. intros b0 s0 a0 g0 b1 s1 a1 g1 b2 s2 a2 g2 (R1 & E1 & A1 & S1 & K1 & L1) (R2 & E2 & A2 & S2 & K2 & L2).
+  split; [eapply xrun_trans; eassumption|]. split; [eapply bext_trans; [exact E1|exact E2|exact (proj1 L1)|exact (proj2 L1)]|].
+  split; [eapply act_same_trans; eassumption|]. split; [lia|].
+  split; [eapply keep_trans; eassumption|eapply lens_trans; eassumption].
+Qed.
+Lemma jmid_fail : forall b0 s0 a0 g0 b s a g e g', jmid b0 s0 a0 g0 b s a g -> xfail prog name code a g e g' ->
+  xfail prog name code a0 g0 e g'.
+Proof. unfold jmid. intros b0 s0 a0 g0 b s a g e g' (R & _) Hf. eapply xrun_fail; eassumption. Qed.
+
 Lemma keep_cell_set : forall (b : cinj) g c c' k w, b c c' k -> keep b g (cell_set g c' w).
 Proof.
   intros b g c c' k w Hb d w0 Hd Hn. unfold cell_get, cell_set in *. cbn [cells].
   rewrite nth_error_set_nth_other; [exact Hd|]. intros E. apply N2Nat.inj in E. subst d. exact (Hn c k Hb).
 Qed.
 
-Definition spost (b : cinj) (B' : kctx) (rets : list kind) (fin : nat) (env : fenv) (s : rstate) (a : act) (g : gstate)
-           (r : sres_) : Prop :=
+Lemma skipn_tl : forall A m (l : list A), skipn (S m) l = skipn m (tl l).
+Proof. intros A m [|x l]; [now destruct m|reflexivity]. Qed.
+Lemma skipn_tl_eq : forall A m (l l' : list A), 1 <= m -> tl l = tl l' -> skipn m l = skipn m l'.
+Proof. intros A [|m] l l' Hm E; [lia|]. now rewrite !skipn_tl, E. Qed.
+
+(* inside a loop: sl = Some m, m = block frames to pop on `break` (m-1 on `continue`); the targets lie ahead *)
+Definition lcok (il : bool) (sl : option nat) (bt ct : nat) (env : fenv) (hi : nat) : Prop :=
+  (il = true -> sl <> None) /\
+  forall m, sl = Some m -> 1 <= m /\ m < length (locals env) /\ hi <= ct /\ ct <= bt /\ bt < length code /\ m + hi <= length code.
+Lemma lcok_mono : forall il sl bt ct env env' hi hi', lcok il sl bt ct env hi -> hi' <= hi ->
+  length (locals env') = length (locals env) -> lcok il sl bt ct env' hi'.
+Proof.
+  intros il sl bt ct env env' hi hi' [H1 H2] Hle El. split; [exact H1|]. intros m Hm. destruct (H2 m Hm) as (A1 & A2 & A3 & A4 & A5 & A6).
+  rewrite El. repeat split; lia.
+Qed.
+Lemma lcok_block : forall il sl bt ct env hi hi', lcok il sl bt ct env hi -> S hi' <= hi ->
+  lcok il (option_map S sl) bt ct (push_scope env) hi'.
+Proof.
+  intros il sl bt ct env hi hi' [H1 H2] Hle. split.
+  - intros Hil. specialize (H1 Hil). destruct sl; [discriminate|congruence].
+  - intros m' Hm'. destruct sl as [m|]; [|discriminate]. cbn [option_map] in Hm'. inversion Hm'; subst m'.
+    destruct (H2 m eq_refl) as (A1 & A2 & A3 & A4 & A5 & A6). cbn [push_scope locals length]. repeat split; lia.
+Qed.
+
+Definition spost (b : cinj) (B' : kctx) (rets : list kind) (sl : option nat) (bt ct fin : nat) (env : fenv) (s : rstate)
+           (a : act) (g : gstate) (r : sres_) : Prop :=
   match r with
   | SOk sig env' s' =>
     same_tl env env' /\
     match sig with
     | SigNormal => bound2 B' env' /\
         exists a' g' b', smid b s a g b' s' a' g' /\ a_ip a' = fin /\ a_ops a' = [] /\ ClA b' B' env' s' g'
+    | SigBreak => exists m a' g' b', sl = Some m /\ 1 <= m /\
+        jmid b s a g b' s' a' g' /\ a_ip a' = bt /\ a_ops a' = [] /\ ClA b' [] (popn m env') s' g' /\
+        frames g' = skipn m (frames g)
+    | SigContinue => exists m a' g' b', sl = Some m /\ 1 <= m /\
+        jmid b s a g b' s' a' g' /\ a_ip a' = ct /\ a_ops a' = [] /\ ClA b' [] (popn (m - 1) env') s' g' /\
+        tl (frames g') = skipn m (frames g)
     | SigReturn (Some v) => exists a' g' b' w k,
         xrun prog name code a g a' g' /\ nth_error code (a_ip a') = Some (mkI OP_RET []) /\ a_ops a' = [w] /\
         bext b b' s g /\ heap_ok b' s' g' /\ vrel b' k v w /\ In k rets /\ out g' = rout s' /\
         drop_to_function (frames g') = base /\ keep b g g' /\ lens s s' g g'
-    | _ => False
+    | SigReturn None => exists a' g' b',
+        xrun prog name code a g a' g' /\ nth_error code (a_ip a') = Some (mkI OP_RET []) /\ a_ops a' = [] /\
+        bext b b' s g /\ heap_ok b' s' g' /\ In KN rets /\ out g' = rout s' /\
+        drop_to_function (frames g') = base /\ keep b g g' /\ lens s s' g g'
     end
   | SFailed f s' => fail_post f (exists e g', xfail prog name code a g e g' /\ err_rel_s f e /\ out g' = rout s')
   | SFuel => True
   end.
 
 Definition sspec (st : stmt) : Prop :=
-  forall b B lr k0 fuel kp a g env s B' rets,
-    fuel <= FU -> kstmt SF B CD st = Some (B', rets) -> bound2 B env -> installed (snd (sc path c0 lr k0 st)) ->
-    code_at code kp (fst (sc path c0 lr k0 st)) -> endok code (kp + length (fst (sc path c0 lr k0 st))) (is_ret st) ->
+  forall b B lr il sl bt ct k0 fuel kp a g env s B' rets,
+    fuel <= FU -> kstmt SF il B CD st = Some (B', rets) -> bound2 B env -> installed (snd (sc path c0 lr sl k0 st)) ->
+    items_at code bt ct kp (fst (sc path c0 lr sl k0 st)) -> endok code (kp + length (fst (sc path c0 lr sl k0 st))) (isret st) ->
+    lcok il sl bt ct env (kp + length (fst (sc path c0 lr sl k0 st))) ->
     a_ip a = kp -> a_cb a = cb -> a_ops a = [] -> length (locals env) <= S (a_ss a) -> ClA b B env s g ->
-    spost b B' rets (kp + length (fst (sc path c0 lr k0 st))) env s a g (Eval.exec fuel env st s).
+    spost b B' rets sl bt ct (kp + length (fst (sc path c0 lr sl k0 st))) env s a g (Eval.exec fuel env st s).
 Definition bspec (l : list stmt) : Prop :=
-  forall b B lr k0 fuel kp a g env s B' rets,
-    fuel <= FU -> kblock SF B CD l = Some (B', rets) -> bound2 B env -> installed (snd (bc path c0 lr k0 l)) ->
-    code_at code kp (fst (bc path c0 lr k0 l)) -> endok code (kp + length (fst (bc path c0 lr k0 l))) (ends_ret l) ->
+  forall b B lr il sl bt ct k0 fuel kp a g env s B' rets,
+    fuel <= FU -> kblock SF il B CD l = Some (B', rets) -> bound2 B env -> installed (snd (bc path c0 lr sl k0 l)) ->
+    items_at code bt ct kp (fst (bc path c0 lr sl k0 l)) -> endok code (kp + length (fst (bc path c0 lr sl k0 l))) (endsret l) ->
+    lcok il sl bt ct env (kp + length (fst (bc path c0 lr sl k0 l))) ->
     a_ip a = kp -> a_cb a = cb -> a_ops a = [] -> length (locals env) <= S (a_ss a) -> ClA b B env s g ->
-    spost b B' rets (kp + length (fst (bc path c0 lr k0 l))) env s a g (exec_block fuel env l s).
+    spost b B' rets sl bt ct (kp + length (fst (bc path c0 lr sl k0 l))) env s a g (exec_block fuel env l s).
 
-Lemma spost_fail_e : forall b B' rets fin env s a g f s' e0 g',
-  xfail prog name code a g e0 g' -> err_rel_s f e0 -> out g' = rout s' -> spost b B' rets fin env s a g (SFailed f s').
+Lemma spost_fail_e : forall b B' rets sl bt ct fin env s a g f s' e0 g',
+  xfail prog name code a g e0 g' -> err_rel_s f e0 -> out g' = rout s' -> spost b B' rets sl bt ct fin env s a g (SFailed f s').
 Proof. intros. cbn [spost]. apply fail_post_intro. eauto. Qed.
 
 (* the statement starts after the machine has made some progress *)
-Lemma spost_seq : forall b B' rets fin env s a g b1 env1 s1 a1 g1 r,
-  smid b s a g b1 s1 a1 g1 -> same_tl env env1 -> spost b1 B' rets fin env1 s1 a1 g1 r -> spost b B' rets fin env s a g r.
+Lemma spost_seq : forall b B' rets sl bt ct fin env s a g b1 env1 s1 a1 g1 r,
+  smid b s a g b1 s1 a1 g1 -> same_tl env env1 -> spost b1 B' rets sl bt ct fin env1 s1 a1 g1 r -> spost b B' rets sl bt ct fin env s a g r.
 Proof.
-  intros b B' rets fin env s a g b1 env1 s1 a1 g1 r M Hd H.
+  intros b B' rets sl bt ct fin env s a g b1 env1 s1 a1 g1 r M Hd H.
   destruct r as [sig env' s'|f s'|]; cbn [spost] in *; [| |exact Logic.I].
   - destruct H as [Hd' H]. split; [eapply same_tl_trans; eassumption|].
-    destruct sig as [| | |[v|]]; try contradiction.
+    destruct sig as [| | |[v|]].
     + destruct H as (HB & a' & g' & b' & M' & Hip & Hops & HC). split; [exact HB|]. exists a', g', b'.
       split; [eapply smid_trans; eassumption|]. auto.
+    + destruct H as (m & a' & g' & b' & Hsl & Hm & J & Hip & Hops & HC & Hf). exists m, a', g', b'.
+      split; [exact Hsl|]. split; [exact Hm|]. split; [eapply jmid_trans; [apply jmid_of_smid; exact M|exact J]|].
+      split; [exact Hip|]. split; [exact Hops|]. split; [exact HC|]. rewrite Hf. apply skipn_tl_eq; [exact Hm|].
+      unfold smid in M. exact (proj1 (proj2 (proj2 M))).
+    + destruct H as (m & a' & g' & b' & Hsl & Hm & J & Hip & Hops & HC & Hf). exists m, a', g', b'.
+      split; [exact Hsl|]. split; [exact Hm|]. split; [eapply jmid_trans; [apply jmid_of_smid; exact M|exact J]|].
+      split; [exact Hip|]. split; [exact Hops|]. split; [exact HC|]. rewrite Hf. apply skipn_tl_eq; [exact Hm|].
+      unfold smid in M. exact (proj1 (proj2 (proj2 M))).
     + destruct H as (a' & g' & b' & w & k & R & Hi & Hops & E & Hh & Hv & Hk & Ho & Hdr & K & L).
       unfold smid in M. destruct M as (R1 & E1 & T1 & A1 & S1 & K1 & L1).
       exists a', g', b', w, k. split; [eapply xrun_trans; eassumption|]. split; [exact Hi|]. split; [exact Hops|].
       split; [eapply bext_trans; [exact E1|exact E|exact (proj1 L1)|exact (proj2 L1)]|]. split; [exact Hh|]. split; [exact Hv|].
       split; [exact Hk|]. split; [exact Ho|]. split; [exact Hdr|]. split; [eapply keep_trans; eassumption|eapply lens_trans; eassumption].
+    + destruct H as (a' & g' & b' & R & Hi & Hops & E & Hh & Hk & Ho & Hdr & K & L).
+      unfold smid in M. destruct M as (R1 & E1 & T1 & A1 & S1 & K1 & L1).
+      exists a', g', b'. split; [eapply xrun_trans; eassumption|]. split; [exact Hi|]. split; [exact Hops|].
+      split; [eapply bext_trans; [exact E1|exact E|exact (proj1 L1)|exact (proj2 L1)]|]. split; [exact Hh|].
+      split; [exact Hk|]. split; [exact Ho|]. split; [exact Hdr|]. split; [eapply keep_trans; eassumption|eapply lens_trans; eassumption].
   - eapply fail_post_map; [|exact H]. intros (e & g' & Hf & Hr). exists e, g'. split; [eapply smid_fail; eassumption|exact Hr].
 Qed.
 
-Lemma spost_rets : forall b B' rets rets' fin env s a g r, (forall k, In k rets -> In k rets') ->
-  (forall env' s', r <> SOk SigNormal env' s') -> spost b B' rets fin env s a g r -> forall B'' fin', spost b B'' rets' fin' env s a g r.
+(* a result that is not a normal completion does not depend on the context afterwards / on the end of the code *)
+Lemma spost_rets : forall b B' rets rets' sl bt ct fin env s a g r, (forall k, In k rets -> In k rets') ->
+  (forall env' s', r <> SOk SigNormal env' s') -> spost b B' rets sl bt ct fin env s a g r ->
+  forall B'' fin', spost b B'' rets' sl bt ct fin' env s a g r.
 Proof.
-  intros b B' rets rets' fin env s a g r Hin Hn H B'' fin'. destruct r as [sig env' s'|f s'|]; cbn [spost] in *; [|exact H|exact Logic.I].
-  destruct H as [Hd H]. split; [exact Hd|]. destruct sig as [| | |[v|]]; try contradiction.
+  intros b B' rets rets' sl bt ct fin env s a g r Hin Hn H B'' fin'. destruct r as [sig env' s'|f s'|]; cbn [spost] in *; [|exact H|exact Logic.I].
+  destruct H as [Hd H]. split; [exact Hd|]. destruct sig as [| | |[v|]].
   - exfalso. exact (Hn env' s' eq_refl).
+  - exact H.
+  - exact H.
   - destruct H as (a' & g' & b' & w & k & R & Hi & Hops & E & Hh & Hv & Hk & Hrest). exists a', g', b', w, k. auto 12.
+  - destruct H as (a' & g' & b' & R & Hi & Hops & E & Hh & Hk & Hrest). exists a', g', b'. auto 12.
 Qed.
 
 (* ---------------------------------------------------------------- x = e *)
 Lemma assign_sim : forall x e, sspec (SAssign x e).
 Proof.
-  intros x e b B lr k0 fuel kp a g env s B' rets Hfu Hk Hb Hinst Hc Hend Hip Hcb Hops Hss HC.
+  intros x e b B lr il sl bt ct k0 fuel kp a g env s B' rets Hfu Hk Hb Hinst Hc Hend Hlc Hip Hcb Hops Hss HC.
   destruct Hend as [Hend|[Hend _]]; [|discriminate Hend].
   cbn [kstmt] in Hk. destruct (src_nameb x) eqn:Hsx; [|discriminate].
   destruct (kexpr SF B CD e) as [k|] eqn:Ee; [|discriminate].
   destruct fuel as [|fuel]; [exact Logic.I|]. rewrite exec_SAssign.
   rewrite sc_Assign in *. destruct (ec path c0 lr k0 e) as [ce fe] eqn:Eec. cbn [fst snd] in *.
-  rewrite app_length in *. cbn [length] in *.
-  apply code_at_app in Hc as [Hce Hi]. apply code_at_cons in Hi as [Hi _].
+  rewrite app_length, map_length in *. cbn [length] in *.
+  apply items_at_app in Hc as [Hce Hi]. apply items_at_CI in Hce. rewrite map_length in Hi. apply items_at_cons in Hi as [Hi _]. cbn [item_instr I] in Hi.
   pose proof (espec_all e b B c0 lr k0 fuel kp a g env s k ltac:(lia) Ee Hb) as He. rewrite Eec in He. cbn [fst snd] in He.
   specialize (He Hinst ltac:(lia) Hce ltac:(lia) Hip Hcb Hops HC).
   destruct (eval fuel env e s) as [v s1|s1|f s1|]; cbn [eres_ok spost] in He |- *; [|exact Logic.I|exact He|exact Logic.I].
@@ -1307,7 +1377,7 @@ Proof. reflexivity. Qed.
 
 Lemma modify_sim : forall x e, sspec (SModify x e).
 Proof.
-  intros x e b B lr k0 fuel kp a g env s B' rets Hfu Hk Hb Hinst Hc Hend Hip Hcb Hops Hss HC.
+  intros x e b B lr il sl bt ct k0 fuel kp a g env s B' rets Hfu Hk Hb Hinst Hc Hend Hlc Hip Hcb Hops Hss HC.
   destruct Hend as [Hend|[Hend _]]; [|discriminate Hend].
   cbn [kstmt] in Hk. destruct (assoc x CD) as [k'|] eqn:EC; [|discriminate].
   destruct (kexpr SF B CD e) as [k|] eqn:Ee; [|discriminate].
@@ -1315,8 +1385,8 @@ Proof.
   apply kind_eqb_eq in Ek. subst k'. inversion Hk; subst B' rets.
   destruct fuel as [|fuel]; [exact Logic.I|]. rewrite exec_SModify.
   rewrite sc_Modify in *. destruct (ec path c0 lr k0 e) as [ce fe] eqn:Eec. cbn [fst snd] in *.
-  rewrite app_length in *. cbn [length] in *.
-  apply code_at_app in Hc as [Hce Hi]. apply code_at_cons in Hi as [Hi _].
+  rewrite app_length, map_length in *. cbn [length] in *.
+  apply items_at_app in Hc as [Hce Hi]. apply items_at_CI in Hce. rewrite map_length in Hi. apply items_at_cons in Hi as [Hi _]. cbn [item_instr I] in Hi.
   pose proof (espec_all e b B c0 lr k0 fuel kp a g env s k ltac:(lia) Ee Hb) as He. rewrite Eec in He. cbn [fst snd] in He.
   specialize (He Hinst ltac:(lia) Hce ltac:(lia) Hip Hcb Hops HC).
   destruct (eval fuel env e s) as [v s1|s1|f s1|]; cbn [eres_ok spost] in He |- *; [|exact Logic.I|exact He|exact Logic.I].
@@ -1342,13 +1412,13 @@ Qed.
 (* ---------------------------------------------------------------- print e *)
 Lemma print_sim : forall e, sspec (SPrint e).
 Proof.
-  intros e b B lr k0 fuel kp a g env s B' rets Hfu Hk Hb Hinst Hc Hend Hip Hcb Hops Hss HC.
+  intros e b B lr il sl bt ct k0 fuel kp a g env s B' rets Hfu Hk Hb Hinst Hc Hend Hlc Hip Hcb Hops Hss HC.
   destruct Hend as [Hend|[Hend _]]; [|discriminate Hend].
   cbn [kstmt] in Hk. destruct (kexpr SF B CD e) as [[|? ?|]|] eqn:Ee; try discriminate. cbn [is_KD] in Hk. inversion Hk; subst B' rets.
   destruct fuel as [|fuel]; [exact Logic.I|]. rewrite exec_SPrint.
   rewrite sc_Print in *. destruct (ec path c0 lr k0 e) as [ce fe] eqn:Eec. cbn [fst snd] in *.
-  rewrite app_length in *. cbn [length] in *.
-  apply code_at_app in Hc as [Hce Hi]. apply code_at_cons in Hi as [Hi1 Hi]. apply code_at_cons in Hi as [Hi2 _].
+  rewrite app_length, map_length in *. cbn [length] in *.
+  apply items_at_app in Hc as [Hce Hi]. apply items_at_CI in Hce. rewrite map_length in Hi. apply items_at_cons in Hi as [Hi1 Hi]. apply items_at_cons in Hi as [Hi2 _]. cbn [item_instr I] in Hi1, Hi2.
   pose proof (espec_all e b B c0 lr k0 fuel kp a g env s KD ltac:(lia) Ee Hb) as He. rewrite Eec in He. cbn [fst snd] in He.
   specialize (He Hinst ltac:(lia) Hce ltac:(lia) Hip Hcb Hops HC).
   destruct (eval fuel env e s) as [v s1|s1|f s1|]; cbn [eres_ok spost] in He |- *; [|exact Logic.I|exact He|exact Logic.I].
@@ -1373,17 +1443,17 @@ Qed.
 (* ---------------------------------------------------------------- an expression statement *)
 Lemma expr_sim : forall e, sspec (SExpr e).
 Proof.
-  intros e b B lr k0 fuel kp a g env s B' rets Hfu Hk Hb Hinst Hc Hend Hip Hcb Hops Hss HC.
+  intros e b B lr il sl bt ct k0 fuel kp a g env s B' rets Hfu Hk Hb Hinst Hc Hend Hlc Hip Hcb Hops Hss HC.
   destruct Hend as [Hend|[Hend _]]; [|discriminate Hend].
   cbn [kstmt] in Hk. destruct (kexpr SF B CD e) as [k|] eqn:Ee; [|discriminate]. inversion Hk; subst B' rets.
   destruct fuel as [|fuel]; [exact Logic.I|]. rewrite exec_SExpr.
   rewrite sc_Expr in *. destruct (ec path c0 lr k0 e) as [ce fe] eqn:Eec. cbn [fst snd] in *.
-  rewrite app_length in *. cbn [length] in *.
-  apply code_at_app in Hc as [Hce Hi]. apply code_at_cons in Hi as [Hi1 _].
+  rewrite app_length, map_length in *. cbn [length] in *.
+  apply items_at_app in Hc as [Hce Hi]. apply items_at_CI in Hce. rewrite map_length in Hi. apply items_at_cons in Hi as [Hi1 _]. cbn [item_instr I] in Hi1.
   pose proof (espec_all e b B c0 lr k0 fuel kp a g env s k ltac:(lia) Ee Hb) as He. rewrite Eec in He. cbn [fst snd] in He.
   specialize (He Hinst ltac:(lia) Hce ltac:(lia) Hip Hcb Hops HC).
   assert (Hdone : forall s1 a1 g1 b1, smid b s a g b1 s1 a1 g1 -> a_ip a1 = kp + length ce -> ClA b1 B env s1 g1 ->
-            spost b B [] (kp + (length ce + 1)) env s a g (SOk SigNormal env s1)).
+            spost b B [] sl bt ct (kp + (length ce + 1)) env s a g (SOk SigNormal env s1)).
   { intros s1 a1 g1 b1 SM1 Hip1 HC1.
     cbn [spost]. split; [apply same_tl_refl; exact (Cl_ne _ _ _ _ _ _ _ _ _ _ _ _ HC)|]. split; [exact Hb|].
     exists (set_ip (set_ops a1 []) (S (a_ip a1))), (trc name a1 g1 (mkI OP_VOID [])), b1.
@@ -1400,12 +1470,12 @@ Qed.
 (* ---------------------------------------------------------------- return e *)
 Lemma return_sim : forall e, sspec (SReturn (Some e)).
 Proof.
-  intros e b B lr k0 fuel kp a g env s B' rets Hfu Hk Hb Hinst Hc Hend Hip Hcb Hops Hss HC.
+  intros e b B lr il sl bt ct k0 fuel kp a g env s B' rets Hfu Hk Hb Hinst Hc Hend Hlc Hip Hcb Hops Hss HC.
   cbn [kstmt] in Hk. destruct (kexpr SF B CD e) as [k|] eqn:Ee; [|discriminate]. inversion Hk; subst B' rets.
   destruct fuel as [|fuel]; [exact Logic.I|]. rewrite exec_SReturn.
   rewrite sc_Return in *. destruct (ec path c0 lr k0 e) as [ce fe] eqn:Eec. cbn [fst snd] in *.
-  rewrite app_length in *. cbn [length] in *.
-  apply code_at_app in Hc as [Hce Hi]. apply code_at_cons in Hi as [Hi1 _].
+  rewrite app_length, map_length in *. cbn [length] in *.
+  apply items_at_app in Hc as [Hce Hi]. apply items_at_CI in Hce. rewrite map_length in Hi. apply items_at_cons in Hi as [Hi1 _]. cbn [item_instr I] in Hi1.
   assert (Hlen : kp + length ce < length code).
   { destruct Hend as [H|[_ H]]; [lia|]. assert (nth_error code (kp + length ce) <> None) by congruence. apply nth_error_Some in H0. exact H0. }
   pose proof (espec_all e b B c0 lr k0 fuel kp a g env s k ltac:(lia) Ee Hb) as He. rewrite Eec in He. cbn [fst snd] in He.
@@ -1420,101 +1490,260 @@ Proof.
   split; [rewrite (Rfr2_drop _ _ _ (cl_fr _ _ _ _ _ _ _ _ _ _ _ _ HC1)); exact (cl_base _ _ _ _ _ _ _ _ _ _ _ _ HC1)|]. split; [exact K1|exact L1].
 Qed.
 
-(* ---------------------------------------------------------------- sequencing *)
-Lemma sc_pos : forall st B B' rets lr k0, kstmt SF B CD st = Some (B', rets) -> 1 <= length (fst (sc path c0 lr k0 st)).
+(* ---------------------------------------------------------------- assert e *)
+Lemma assert_sim : forall e sp, sspec (SAssert e sp).
 Proof.
-  intros st B B' rets lr k0 H. destruct st; try discriminate.
-  - rewrite sc_Assign. destruct (ec path c0 lr k0 e). cbn [fst]. rewrite app_length. cbn. lia.
-  - rewrite sc_Modify. destruct (ec path c0 lr k0 e). cbn [fst]. rewrite app_length. cbn. lia.
-  - rewrite sc_Print. destruct (ec path c0 lr k0 e). cbn [fst]. rewrite app_length. cbn. lia.
-  - rewrite sc_Expr. destruct (ec path c0 lr k0 e). cbn [fst]. rewrite app_length. cbn. lia.
-  - rewrite sc_SIf. destruct (ec path c0 lr k0 c). destruct (bc path c0 lr (k0 + length f) body). cbn [fst]. rewrite !app_length. cbn. lia.
-  - rewrite sc_SIfElse. destruct (ec path c0 lr k0 c). destruct (bc path c0 lr (k0 + length f) body).
-    destruct (bc path c0 lr (k0 + length f + length f0) els). cbn [fst]. rewrite !app_length. cbn. lia.
-  - rewrite sc_SWhile. destruct (ec path c0 lr k0 c). destruct (bc path c0 lr (k0 + length f) body). cbn [fst]. rewrite !app_length. cbn. lia.
-  - destruct step; [discriminate|]. destruct name0 as [x|]; [|discriminate]. destruct collide; [discriminate|].
-    rewrite sc_SFrom. destruct (bc path c0 (S lr) k0 body). cbn [fst]. rewrite !app_length. cbn. lia.
-  - destruct e as [e|]; [|discriminate]. rewrite sc_Return. destruct (ec path c0 lr k0 e). cbn [fst]. rewrite app_length. cbn. lia.
+  intros e sp b B lr il sl bt ct k0 fuel kp a g env s B' rets Hfu Hk Hb Hinst Hc Hend Hlc Hip Hcb Hops Hss HC.
+  destruct Hend as [Hend|[Hend _]]; [|discriminate Hend].
+  cbn [kstmt] in Hk. destruct (kexpr SF B CD e) as [[|? ?|]|] eqn:Ee; try discriminate. cbn [is_KD] in Hk. inversion Hk; subst B' rets.
+  destruct fuel as [|fuel]; [exact Logic.I|]. rewrite exec_SAssert.
+  rewrite sc_Assert in *. destruct (ec path c0 lr k0 e) as [ce fe] eqn:Eec. cbn [fst snd] in *.
+  rewrite app_length, map_length in *. cbn [length] in *.
+  apply items_at_app in Hc as [Hce Hi]. apply items_at_CI in Hce. rewrite map_length in Hi. apply items_at_cons in Hi as [Hi1 _]. cbn [item_instr I] in Hi1.
+  pose proof (espec_all e b B c0 lr k0 fuel kp a g env s KD ltac:(lia) Ee Hb) as He. rewrite Eec in He. cbn [fst snd] in He.
+  specialize (He Hinst ltac:(lia) Hce ltac:(lia) Hip Hcb Hops HC).
+  destruct (eval fuel env e s) as [v s1|s1|f s1|]; cbn [eres_ok spost] in He |- *; [|exact Logic.I|exact He|exact Logic.I].
+  apply eres_val_inv in He. destruct He as (a1 & g1 & b1 & w & M1 & Hip1 & Hops1 & HC1 & [Hfo ->]).
+  pose proof (smid_of_mid _ _ _ _ _ _ _ _ _ M1) as SM1.
+  set (i1 := mkI OP_ASSERT [sp]) in *.
+  pose proof (exec_assert sp a1 (trc name a1 g1 i1) (inj v) Hops1) as Hx.
+  assert (Hfail : forall f e0, exec_d (DAssert (Some sp)) a1 (trc name a1 g1 i1) = SFail e0 -> err_rel_s f e0 ->
+            spost b B [] sl bt ct (kp + (length ce + 1)) env s a g (SFailed f s1)).
+  { intros f e0 Hex Hrel. apply (spost_fail_e b B [] sl bt ct _ env s a g f s1 e0 (trc name a1 g1 i1)); [|exact Hrel|exact (cl_out _ _ _ _ _ _ _ _ _ _ _ _ HC1)].
+    eapply smid_fail; [exact SM1|]. eapply xstep_fail; [exact Hip1|exact Hi1|apply dec_assert|exact Hex]. }
+  destruct v as [z|[|]|t| |p bd ev]; cbn [inj val_equals] in Hx; try contradiction.
+  - eapply Hfail; [exact Hx|]. cbn. auto.
+  - cbn [spost]. split; [apply same_tl_refl; exact (Cl_ne _ _ _ _ _ _ _ _ _ _ _ _ HC)|]. split; [exact Hb|].
+    exists (set_ip (set_ops a1 []) (S (a_ip a1))), (trc name a1 g1 i1), b1.
+    split; [|split; [cbn [set_ip a_ip]; lia|split; [reflexivity|apply Cl_trc; exact HC1]]].
+    eapply smid_trans; [exact SM1|]. apply smid_same; try reflexivity; [|repeat split].
+    eapply (xstep_next prog name code a1 g1 i1 _ (a_ip a1) (set_ops a1 [])); [reflexivity|rewrite Hip1; exact Hi1|apply dec_assert|exact Hx].
+  - eapply Hfail; [exact Hx|]. reflexivity.
+  - eapply Hfail; [exact Hx|]. cbn. auto.
+  - eapply Hfail; [exact Hx|]. cbn. right. eexists. reflexivity.
 Qed.
 
-Lemma bc_cons : forall lr k0 st l, bc path c0 lr k0 (st :: l) =
-  let '(cs, fs) := sc path c0 lr k0 st in let '(cl, fl) := bc path c0 lr (k0 + length fs) l in (cs ++ cl, fs ++ fl).
+(* ---------------------------------------------------------------- x op= e : a local or a captured variable (through its cell) *)
+Lemma opassign_sim : forall x o e, sspec (SOpAssign x o e).
+Proof.
+  intros x o e b B lr il sl bt ct k0 fuel kp a g env s B' rets Hfu Hk Hb Hinst Hc Hend Hlc Hip Hcb Hops Hss HC.
+  destruct Hend as [Hend|[Hend _]]; [|discriminate Hend].
+  cbn [kstmt] in Hk.
+  destruct (arith5 o && src_nameb x && is_KD (kvar B CD x) && is_KD (kexpr SF B CD e)) eqn:Hcnd; [|discriminate].
+  rewrite !andb_true_iff in Hcnd. destruct Hcnd as [[[Ho Hsx] Hkx] Hke]. inversion Hk; subst B' rets.
+  destruct (kvar B CD x) as [[|? ?|]|] eqn:Ex; try discriminate Hkx.
+  destruct (kexpr SF B CD e) as [[|? ?|]|] eqn:Ee; try discriminate Hke.
+  destruct fuel as [|fuel]; [exact Logic.I|]. rewrite exec_SOpAssign.
+  rewrite sc_OpAssign in *. destruct (ec path (S c0) lr k0 e) as [ce fe] eqn:Eec. cbn [fst snd] in *.
+  rewrite app_length, map_length in *. cbn [length] in *.
+  apply items_at_app in Hc as [Hce Hi]. apply items_at_CI in Hce. rewrite map_length in Hi.
+  apply items_at_cons in Hi as [Hi1 Hi]. apply items_at_cons in Hi as [Hi2 _]. cbn [item_instr I] in Hi1, Hi2.
+  pose proof (espec_all e b B (S c0) lr k0 fuel kp a g env s KD ltac:(lia) Ee Hb) as He. rewrite Eec in He. cbn [fst snd] in He.
+  specialize (He Hinst ltac:(lia) Hce ltac:(lia) Hip Hcb Hops HC).
+  destruct (eval fuel env e s) as [v s1|s1|f s1|]; cbn [eres_ok spost] in He |- *; [|exact Logic.I|exact He|exact Logic.I].
+  apply eres_val_inv in He. destruct He as (a1 & g1 & b1 & w & M1 & Hip1 & Hops1 & HC1 & [Hfo ->]).
+  pose proof (smid_of_mid _ _ _ _ _ _ _ _ _ M1) as SM1.
+  assert (Hcb1 : a_cb a1 = cb) by (unfold smid in SM1; destruct SM1 as (_ & _ & _ & (_ & _ & A) & _); congruence).
+  set (i1 := mkI OP_BIN_OP_ASSIGN [binop_sym o ++ [61%N]; x]) in *.
+  set (g1t := trc name a1 g1 i1).
+  pose proof (Cl_trc b1 B env s1 g1 name a1 i1 HC1) as HC1t. fold g1t in HC1t.
+  destruct (var_cell b1 B env s1 g1t x KD HC1t Hb Ex) as (Hx & c & c' & cur_ & wc & A1 & _ & A3 & Hbc & A4 & A5 & [Hfc ->]).
+  rewrite A1, A4.
+  pose proof (exec_bin_op_assign (binop_sym o ++ [61%N]) x a1 g1t c' (inj v) (inj cur_) (A3 a1 Hcb1) Hops1 A5) as Hx1.
+  rewrite (op_base_arith5 o Ho) in Hx1.
+  pose proof (binop_agree o cur_ v s1 (arith5_arith_op o Ho)) as Hag.
+  pose proof (arith5_not_bool o cur_ v s1) as Hnb.
+  destruct (binop_sem o cur_ v s1) as [r s2|s2|f s2|]; try contradiction.
+  - destruct Hag as (-> & Hfr & Hbo). rewrite Hbo in Hx1. specialize (Hnb r s1 Ho eq_refl).
+    assert (Hx2 : exec_d (DBinOpAssign (binop_sym o ++ [61%N]) x) a1 g1t = SNext (set_ops a1 [inj r]) (cell_set g1t c' (inj r))).
+    { rewrite Hx1. destruct (inj r); try reflexivity. contradiction. }
+    set (g2 := cell_set g1t c' (inj r)).
+    set (a2 := set_ip (set_ops a1 [inj r]) (S (a_ip a1))).
+    cbn [spost]. split; [apply same_tl_refl; exact (Cl_ne _ _ _ _ _ _ _ _ _ _ _ _ HC)|]. split; [exact Hb|].
+    exists (set_ip (set_ops a2 []) (S (a_ip a2))), (trc name a2 g2 (mkI OP_VOID [])), b1.
+    split; [|split; [cbn [a2 set_ip a_ip]; lia|split; [reflexivity|]]].
+    + eapply smid_trans; [exact SM1|]. unfold smid. split.
+      * eapply xrun_trans.
+        -- eapply (xstep_next prog name code a1 g1 i1 _ (a_ip a1) (set_ops a1 [inj r])); [reflexivity|rewrite Hip1; exact Hi1|apply dec_bin_op_assign|exact Hx2].
+        -- eapply (xstep_next prog name code a2 g2 _ _ (a_ip a2) (set_ops a2 [])); [reflexivity| |apply dec_void|apply exec_void].
+           cbn [a2 set_ip a_ip]. rewrite Hip1. atp Hi2.
+      * split; [apply bext_refl|]. split; [reflexivity|]. split; [repeat split|]. split; [reflexivity|].
+        split; [change (keep b1 g1t (cell_set g1t c' (inj r))); eapply keep_cell_set; exact Hbc|].
+        split; [cbn [sset store]; rewrite set_nth_length; lia|cbn [g2 cell_set cells g1t trc add_trace]; rewrite set_nth_length; lia].
+    + apply Cl_trc. apply (Cl_update path prog cb CD base name SF b1 B env s1 g1t c c' KD r (inj r) HC1t Hbc). split; [exact Hfr|reflexivity].
+  - destruct Hag as (-> & e0 & Hbo & Hrel). rewrite Hbo in Hx1.
+    apply (spost_fail_e b B [] sl bt ct _ env s a g f s1 e0 g1t); [|now apply err_rel_s_of|exact (cl_out _ _ _ _ _ _ _ _ _ _ _ _ HC1)].
+    eapply smid_fail; [exact SM1|]. eapply xstep_fail; [exact Hip1|exact Hi1|apply dec_bin_op_assign|exact Hx1].
+Qed.
+
+(* ---------------------------------------------------------------- break / continue (resolved placeholders) *)
+Lemma break_sim : sspec SBreak.
+Proof.
+  intros b B lr il sl bt ct k0 fuel kp a g env s B' rets Hfu Hk Hb Hinst Hc Hend Hlc Hip Hcb Hops Hss HC.
+  destruct Hend as [Hend|[Hend _]]; [|discriminate Hend].
+  cbn [kstmt] in Hk. destruct il; [|discriminate]. inversion Hk; subst B' rets.
+  destruct Hlc as [Hsl Hlc]. specialize (Hsl eq_refl). destruct sl as [m|]; [|congruence].
+  destruct (Hlc m eq_refl) as (Hm1 & Hm2 & Hct & Hbt & Hlen & Hmc).
+  destruct fuel as [|fuel]; [exact Logic.I|].
+  cbn [sc fst snd length sln] in *. apply items_at_cons in Hc as [Hi _]. cbn [item_instr] in Hi.
+  change (Eval.exec (S fuel) env SBreak s) with (SOk SigBreak env s).
+  set (i1 := mkI OP_JMP_POP [sN (bt - kp); sN m]) in *.
+  destruct (Cl_popn path prog cb CD base name SF m b B env s (trc name a g i1) (Cl_trc _ _ _ _ _ _ _ _ HC) Hm2) as (g2 & Hpop & HC2 & Hfr2 & Hc2 & Ho2).
+  cbn [spost]. split; [apply same_tl_refl; exact (Cl_ne _ _ _ _ _ _ _ _ _ _ _ _ HC)|].
+  exists m, (set_ip a bt), g2, b. split; [reflexivity|]. split; [exact Hm1|].
+  split; [|split; [reflexivity|split; [exact Hops|split; [exact HC2|exact Hfr2]]]].
+  unfold jmid. split.
+  - eapply (xstep_gotopop prog name code a g i1 _ kp _ m a); [exact Hip|exact Hi| |apply exec_jmp_pop| |exact Hpop].
+    + apply dec_jmp_pop2; eapply small_le; [|exact Hsmall| |exact Hsmall]; lia.
+    + rewrite Hip. rewrite goto_fwd by lia. f_equal. lia.
+  - split; [apply bext_refl|]. split; [repeat split|]. split; [cbn [set_ip a_ss]; lia|].
+    split; [apply (keep_cells_app _ _ _ []); rewrite app_nil_r; exact Hc2|]. split; [lia|rewrite Hc2; cbn; lia].
+Qed.
+
+Lemma continue_sim : sspec SContinue.
+Proof.
+  intros b B lr il sl bt ct k0 fuel kp a g env s B' rets Hfu Hk Hb Hinst Hc Hend Hlc Hip Hcb Hops Hss HC.
+  destruct Hend as [Hend|[Hend _]]; [|discriminate Hend].
+  cbn [kstmt] in Hk. destruct il; [|discriminate]. inversion Hk; subst B' rets.
+  destruct Hlc as [Hsl Hlc]. specialize (Hsl eq_refl). destruct sl as [m|]; [|congruence].
+  destruct (Hlc m eq_refl) as (Hm1 & Hm2 & Hct & Hbt & Hlen & Hmc).
+  destruct fuel as [|fuel]; [exact Logic.I|].
+  cbn [sc fst snd length sln] in *. apply items_at_cons in Hc as [Hi _]. cbn [item_instr] in Hi.
+  change (Eval.exec (S fuel) env SContinue s) with (SOk SigContinue env s).
+  set (i1 := mkI OP_JMP_POP [sN (ct - kp); sN (m - 1)]) in *.
+  destruct (Cl_popn path prog cb CD base name SF (m - 1) b B env s (trc name a g i1) (Cl_trc _ _ _ _ _ _ _ _ HC) ltac:(lia)) as (g2 & Hpop & HC2 & Hfr2 & Hc2 & Ho2).
+  cbn [spost]. split; [apply same_tl_refl; exact (Cl_ne _ _ _ _ _ _ _ _ _ _ _ _ HC)|].
+  exists m, (set_ip a ct), g2, b. split; [reflexivity|]. split; [exact Hm1|].
+  split; [|split; [reflexivity|split; [exact Hops|split; [exact HC2|]]]].
+  - unfold jmid. split.
+    + eapply (xstep_gotopop prog name code a g i1 _ kp _ (m - 1) a); [exact Hip|exact Hi| |apply exec_jmp_pop| |exact Hpop].
+      * apply dec_jmp_pop2; eapply small_le; [|exact Hsmall| |exact Hsmall]; lia.
+      * rewrite Hip. rewrite goto_fwd by lia. f_equal. lia.
+    + split; [apply bext_refl|]. split; [repeat split|]. split; [cbn [set_ip a_ss]; lia|].
+      split; [apply (keep_cells_app _ _ _ []); rewrite app_nil_r; exact Hc2|]. split; [lia|rewrite Hc2; cbn; lia].
+  - rewrite Hfr2. cbn [trc add_trace frames]. rewrite tl_skipn. f_equal. lia.
+Qed.
+
+(* ---------------------------------------------------------------- return (no value) *)
+Lemma return_none_sim : sspec (SReturn None).
+Proof.
+  intros b B lr il sl bt ct k0 fuel kp a g env s B' rets Hfu Hk Hb Hinst Hc Hend Hlc Hip Hcb Hops Hss HC.
+  cbn [kstmt] in Hk. inversion Hk; subst B' rets.
+  destruct fuel as [|fuel]; [exact Logic.I|].
+  cbn [sc fst snd length] in *. apply items_at_cons in Hc as [Hi _]. cbn [item_instr I] in Hi.
+  change (Eval.exec (S fuel) env (SReturn None) s) with (SOk (SigReturn None) env s).
+  cbn [spost]. split; [apply same_tl_refl; exact (Cl_ne _ _ _ _ _ _ _ _ _ _ _ _ HC)|].
+  exists a, g, b. split; [apply xrun_refl|]. split; [rewrite Hip; exact Hi|]. split; [exact Hops|]. split; [apply bext_refl|].
+  split; [exact (cl_heap _ _ _ _ _ _ _ _ _ _ _ _ HC)|]. split; [now left|].
+  split; [exact (cl_out _ _ _ _ _ _ _ _ _ _ _ _ HC)|].
+  split; [rewrite (Rfr2_drop _ _ _ (cl_fr _ _ _ _ _ _ _ _ _ _ _ _ HC)); exact (cl_base _ _ _ _ _ _ _ _ _ _ _ _ HC)|]. split; [apply keep_refl|apply lens_refl].
+Qed.
+
+(* ---------------------------------------------------------------- sequencing *)
+Lemma sc_pos : forall st il B B' rets lr sl k0, kstmt SF il B CD st = Some (B', rets) -> 1 <= length (fst (sc path c0 lr sl k0 st)).
+Proof.
+  intros st il B B' rets lr sl k0 H. destruct st; try discriminate.
+  - rewrite sc_Assign. destruct (ec path c0 lr k0 e). cbn [fst]. rewrite app_length. cbn. lia.
+  - rewrite sc_Modify. destruct (ec path c0 lr k0 e). cbn [fst]. rewrite app_length. cbn. lia.
+  - rewrite sc_OpAssign. destruct (ec path (S c0) lr k0 e). cbn [fst]. rewrite app_length. cbn. lia.
+  - rewrite sc_Print. destruct (ec path c0 lr k0 e). cbn [fst]. rewrite app_length. cbn. lia.
+  - rewrite sc_Assert. destruct (ec path c0 lr k0 e). cbn [fst]. rewrite app_length. cbn. lia.
+  - rewrite sc_Expr. destruct (ec path c0 lr k0 e). cbn [fst]. rewrite app_length. cbn. lia.
+  - rewrite sc_SIf. destruct (ec path c0 lr k0 c). destruct (bc path c0 lr (option_map S sl) (k0 + length f) body). cbn [fst]. rewrite !app_length. cbn. lia.
+  - rewrite sc_SIfElse. destruct (ec path c0 lr k0 c). destruct (bc path c0 lr (option_map S sl) (k0 + length f) body).
+    destruct (bc path c0 lr (option_map S sl) (k0 + length f + length f0) els). cbn [fst]. rewrite !app_length. cbn. lia.
+  - rewrite sc_SIfElif. destruct (ec path c0 lr k0 c). destruct (bc path c0 lr (option_map S sl) (k0 + length f) body).
+    destruct (sc path c0 lr (option_map S sl) (k0 + length f + length f0) st). cbn [fst]. rewrite !app_length. cbn. lia.
+  - rewrite sc_SWhile. destruct (ec path c0 lr k0 c). destruct (bc path c0 lr (Some 1) (k0 + length f) body). cbn [fst]. rewrite !app_length. cbn. lia.
+  - destruct step; [discriminate|]. destruct name0 as [x|]; [|discriminate]. destruct collide; [discriminate|].
+    rewrite sc_SFrom. destruct (bc path c0 (S lr) (Some 1) k0 body). cbn [fst]. rewrite !app_length. cbn. lia.
+  - cbn. lia.
+  - cbn. lia.
+  - destruct e as [e|]; [|cbn; lia]. rewrite sc_Return. destruct (ec path c0 lr k0 e). cbn [fst]. rewrite app_length. cbn. lia.
+Qed.
+
+Lemma bc_cons : forall lr sl k0 st l, bc path c0 lr sl k0 (st :: l) =
+  let '(cs, fs) := sc path c0 lr sl k0 st in let '(cl, fl) := bc path c0 lr sl (k0 + length fs) l in (cs ++ cl, fs ++ fl).
 Proof. reflexivity. Qed.
 
 Lemma bspec_of : forall l, Forall sspec l -> bspec l.
 Proof.
-  induction l as [|st l IH]; intros HF b B lr k0 fuel kp a g env s B' rets Hfu Hk Hb Hinst Hc Hend Hip Hcb Hops Hss HC.
+  induction l as [|st l IH]; intros HF b B lr il sl bt ct k0 fuel kp a g env s B' rets Hfu Hk Hb Hinst Hc Hend Hlc Hip Hcb Hops Hss HC.
   - destruct fuel as [|fuel]; [exact Logic.I|]. rewrite exec_block_nil. cbn [kblock] in Hk. inversion Hk; subst B' rets.
     cbn [bc fst length spost]. split; [apply same_tl_refl; exact (Cl_ne _ _ _ _ _ _ _ _ _ _ _ _ HC)|]. split; [exact Hb|].
     exists a, g, b. split; [apply smid_refl|]. split; [lia|]. split; [exact Hops|exact HC].
   - pose proof (Forall_inv HF) as Hst. pose proof (Forall_inv_tail HF) as Hl. specialize (IH Hl).
     destruct fuel as [|fuel]; [exact Logic.I|]. rewrite exec_block_cons.
-    cbn [kblock] in Hk. destruct (kstmt SF B CD st) as [[B1 r1]|] eqn:Es; [|discriminate].
-    destruct (kblock SF B1 CD l) as [[B3 r2]|] eqn:El; [|discriminate]. inversion Hk; subst B' rets.
-    rewrite bc_cons in *. destruct (sc path c0 lr k0 st) as [cs fs] eqn:Esc. destruct (bc path c0 lr (k0 + length fs) l) as [cl fl] eqn:Ebc.
+    cbn [kblock] in Hk. destruct (kstmt SF il B CD st) as [[B1 r1]|] eqn:Es; [|discriminate].
+    destruct (kblock SF il B1 CD l) as [[B3 r2]|] eqn:El; [|discriminate]. inversion Hk; subst B' rets.
+    rewrite bc_cons in *. destruct (sc path c0 lr sl k0 st) as [cs fs] eqn:Esc. destruct (bc path c0 lr sl (k0 + length fs) l) as [cl fl] eqn:Ebc.
     cbn [fst snd] in *. rewrite app_length in *.
-    apply (installed_app prog) in Hinst as [Hin1 Hin2]. apply code_at_app in Hc as [Hc1 Hc2].
+    apply (installed_app prog) in Hinst as [Hin1 Hin2]. apply items_at_app in Hc as [Hc1 Hc2].
     assert (Hle : kp + length cs + length cl <= length code) by (destruct Hend as [H|[_ H]]; lia).
-    assert (Hend1 : endok code (kp + length cs) (is_ret st)).
+    assert (Hend1 : endok code (kp + length cs) (isret st)).
     { destruct l as [|st2 l2].
-      - cbn [bc] in Ebc. inversion Ebc; subst cl fl. cbn [length ends_ret] in Hend. rewrite Nat.add_0_r in Hend. exact Hend.
-      - left. cbn [kblock] in El. destruct (kstmt SF B1 CD st2) as [[B2 rr]|] eqn:Es2; [|discriminate].
-        pose proof (sc_pos st2 B1 B2 rr lr (k0 + length fs) Es2) as Hp. rewrite bc_cons in Ebc.
-        destruct (sc path c0 lr (k0 + length fs) st2) as [cs2 fs2]. destruct (bc path c0 lr (k0 + length fs + length fs2) l2) as [cl2 fl2].
+      - cbn [bc] in Ebc. inversion Ebc; subst cl fl. cbn [length endsret] in Hend. rewrite Nat.add_0_r in Hend. exact Hend.
+      - left. cbn [kblock] in El. destruct (kstmt SF il B1 CD st2) as [[B2 rr]|] eqn:Es2; [|discriminate].
+        pose proof (sc_pos st2 il B1 B2 rr lr sl (k0 + length fs) Es2) as Hp. rewrite bc_cons in Ebc.
+        destruct (sc path c0 lr sl (k0 + length fs) st2) as [cs2 fs2]. destruct (bc path c0 lr sl (k0 + length fs + length fs2) l2) as [cl2 fl2].
         inversion Ebc; subst cl fl. cbn [fst] in Hp. rewrite app_length in Hle. lia. }
-    assert (Hend2 : endok code (kp + length cs + length cl) (ends_ret l)).
+    assert (Hend2 : endok code (kp + length cs + length cl) (endsret l)).
     { destruct l as [|st2 l2].
-      - cbn [bc] in Ebc. inversion Ebc; subst cl fl. cbn [length ends_ret] in *.
+      - cbn [bc] in Ebc. inversion Ebc; subst cl fl. cbn [length endsret] in *.
         destruct (Nat.eq_dec (kp + length cs + 0) (length code)); [right; auto|left; lia].
       - rewrite Nat.add_assoc in Hend. exact Hend. }
-    pose proof (Hst b B lr k0 fuel kp a g env s B1 r1 ltac:(lia) Es Hb) as H1. rewrite Esc in H1. cbn [fst snd] in H1.
-    specialize (H1 Hin1 Hc1 Hend1 Hip Hcb Hops Hss HC).
+    pose proof (Hst b B lr il sl bt ct k0 fuel kp a g env s B1 r1 ltac:(lia) Es Hb) as H1. rewrite Esc in H1. cbn [fst snd] in H1.
+    specialize (H1 Hin1 Hc1 Hend1 ltac:(eapply lcok_mono; [exact Hlc|lia|reflexivity]) Hip Hcb Hops Hss HC).
     destruct (Eval.exec fuel env st s) as [sig env1 s1|f s1|]; [|exact H1|exact Logic.I].
-    destruct sig as [| | |rv].
-    + cbn [spost] in H1. destruct H1 as (Hd & HB1 & a1 & g1 & b1 & SM1 & Hip1 & Hops1 & HC1).
-      assert (Hcb1 : a_cb a1 = cb) by (unfold smid in SM1; destruct SM1 as (_ & _ & _ & (_ & _ & A) & _); congruence).
-      assert (Hss1 : length (locals env1) <= S (a_ss a1)).
-      { unfold smid in SM1. destruct SM1 as (_ & _ & _ & _ & S1 & _). rewrite (same_tl_length _ _ (Cl_ne _ _ _ _ _ _ _ _ _ _ _ _ HC) Hd). lia. }
-      pose proof (IH b1 B1 lr (k0 + length fs) fuel (kp + length cs) a1 g1 env1 s1 B3 r2 ltac:(lia) El HB1) as H2.
-      rewrite Ebc in H2. cbn [fst snd] in H2. specialize (H2 Hin2 Hc2 Hend2 Hip1 Hcb1 Hops1 Hss1 HC1).
-      rewrite Nat.add_assoc.
-      eapply spost_seq; [exact SM1|exact Hd|].
-      destruct (exec_block fuel env1 l s1) as [sig2 env2 s2|f2 s2|]; [|exact H2|exact Logic.I].
-      destruct sig2 as [| | |rv2]; [exact H2| | |].
-      * cbn [spost] in H2. destruct H2 as [_ []].
-      * cbn [spost] in H2. destruct H2 as [_ []].
-      * eapply (spost_rets b1 B3 r2 (r1 ++ r2)); [intros k Hk0; apply in_or_app; now right|intros; discriminate|exact H2].
-    + cbn [spost] in H1. destruct H1 as [_ []].
-    + cbn [spost] in H1. destruct H1 as [_ []].
-    + eapply (spost_rets b B1 r1 (r1 ++ r2)); [intros k Hk0; apply in_or_app; now left|intros; discriminate|exact H1].
+    destruct sig as [| | |rv];
+      try (eapply (spost_rets b B1 r1 (r1 ++ r2)); [intros k Hk0; apply in_or_app; now left|intros; discriminate|exact H1]).
+    cbn [spost] in H1. destruct H1 as (Hd & HB1 & a1 & g1 & b1 & SM1 & Hip1 & Hops1 & HC1).
+    assert (Hcb1 : a_cb a1 = cb) by (unfold smid in SM1; destruct SM1 as (_ & _ & _ & (_ & _ & A) & _); congruence).
+    pose proof (same_tl_length _ _ (Cl_ne _ _ _ _ _ _ _ _ _ _ _ _ HC) Hd) as Hlen1.
+    assert (Hss1 : length (locals env1) <= S (a_ss a1)).
+    { unfold smid in SM1. destruct SM1 as (_ & _ & _ & _ & S1 & _). rewrite Hlen1. lia. }
+    pose proof (IH b1 B1 lr il sl bt ct (k0 + length fs) fuel (kp + length cs) a1 g1 env1 s1 B3 r2 ltac:(lia) El HB1) as H2.
+    rewrite Ebc in H2. cbn [fst snd] in H2.
+    specialize (H2 Hin2 Hc2 Hend2 ltac:(eapply lcok_mono; [exact Hlc|lia|exact Hlen1]) Hip1 Hcb1 Hops1 Hss1 HC1).
+    rewrite Nat.add_assoc.
+    eapply spost_seq; [exact SM1|exact Hd|].
+    destruct (exec_block fuel env1 l s1) as [sig2 env2 s2|f2 s2|]; [|exact H2|exact Logic.I].
+    destruct sig2 as [| | |rv2]; [exact H2| | |];
+      (eapply (spost_rets b1 B3 r2 (r1 ++ r2)); [intros k Hk0; apply in_or_app; now right|intros; discriminate|exact H2]).
 Qed.
 
 (* ---------------------------------------------------------------- blocks *)
 (* the names declared by a statement are new: the kinds of the existing ones are unchanged *)
-Lemma kstmt_ext : forall st B B' rets, kstmt SF B CD st = Some (B', rets) -> forall x k, assoc x B = Some k -> assoc x B' = Some k.
+Lemma kstmt_ext : forall st il B B' rets, kstmt SF il B CD st = Some (B', rets) -> forall x k, assoc x B = Some k -> assoc x B' = Some k.
 Proof.
-  intros st B B' rets H x k Hx. destruct st; try discriminate.
+  intros st il B B' rets H x k Hx. destruct st; try discriminate.
   - cbn [kstmt] in H. destruct (src_nameb x0); [|discriminate]. destruct (kexpr SF B CD e) as [k1|]; [|discriminate].
     destruct (assoc x0 B) as [k'|] eqn:E0.
     + destruct (kind_eqb k1 k'); inversion H; subst; exact Hx.
     + inversion H; subst. cbn [assoc]. destruct (str_eqb x0 x) eqn:E; [apply str_eqb_iff in E; subst; congruence|exact Hx].
   - cbn [kstmt] in H. destruct (assoc x0 CD); [|discriminate]. destruct (kexpr SF B CD e); [|discriminate].
     destruct (src_nameb x0 && kind_eqb k1 k0); inversion H; subst; exact Hx.
+  - cbn [kstmt] in H. destruct (arith5 o && src_nameb x0 && is_KD (kvar B CD x0) && is_KD (kexpr SF B CD e)); inversion H; subst; exact Hx.
+  - cbn [kstmt] in H. destruct (is_KD (kexpr SF B CD e)); inversion H; subst; exact Hx.
   - cbn [kstmt] in H. destruct (is_KD (kexpr SF B CD e)); inversion H; subst; exact Hx.
   - cbn [kstmt] in H. destruct (kexpr SF B CD e); inversion H; subst; exact Hx.
-  - rewrite kstmt_SIf in H. destruct (is_KD (kexpr SF B CD c)); [|discriminate]. destruct (kblock SF B CD body) as [[? ?]|]; inversion H; subst; exact Hx.
-  - rewrite kstmt_SIfElse in H. destruct (is_KD (kexpr SF B CD c)); [|discriminate]. destruct (kblock SF B CD body) as [[? ?]|]; [|discriminate].
-    destruct (kblock SF B CD els) as [[? ?]|]; inversion H; subst; exact Hx.
-  - rewrite kstmt_SWhile in H. destruct (is_KD (kexpr SF B CD c)); [|discriminate]. destruct (kblock SF B CD body) as [[? ?]|]; inversion H; subst; exact Hx.
+  - rewrite kstmt_SIf in H. destruct (is_KD (kexpr SF B CD c)); [|discriminate]. destruct (kblock SF il B CD body) as [[? ?]|]; inversion H; subst; exact Hx.
+  - rewrite kstmt_SIfElse in H. destruct (is_KD (kexpr SF B CD c)); [|discriminate]. destruct (kblock SF il B CD body) as [[? ?]|]; [|discriminate].
+    destruct (kblock SF il B CD els) as [[? ?]|]; inversion H; subst; exact Hx.
+  - rewrite kstmt_SIfElif in H. destruct (is_KD (kexpr SF B CD c)); [|discriminate]. destruct (kblock SF il B CD body) as [[? ?]|]; [|discriminate].
+    destruct (kstmt SF il B CD st) as [[? ?]|]; inversion H; subst; exact Hx.
+  - rewrite kstmt_SWhile in H. destruct (is_KD (kexpr SF B CD c)); [|discriminate]. destruct (kblock SF true B CD body) as [[? ?]|]; inversion H; subst; exact Hx.
   - destruct step; [discriminate|]. destruct name0 as [y|]; [|discriminate]. destruct collide; [discriminate|].
     rewrite kstmt_SFrom in H. destruct (ok_dexpr B CD a && ok_dexpr B CD b && src_nameb y && negb (mem_str y (map fst B)) && negb (mem_str y (used_e b))); [|discriminate].
-    destruct (kblock SF ((y, KD) :: B) CD body) as [[? ?]|]; inversion H; subst; exact Hx.
-  - destruct e as [e|]; [|discriminate]. cbn [kstmt] in H. destruct (kexpr SF B CD e); inversion H; subst; exact Hx.
+    destruct (kblock SF true ((y, KD) :: B) CD body) as [[? ?]|]; inversion H; subst; exact Hx.
+  - cbn [kstmt] in H. destruct il; inversion H; subst; exact Hx.
+  - cbn [kstmt] in H. destruct il; inversion H; subst; exact Hx.
+  - destruct e as [e|]; cbn [kstmt] in H; [destruct (kexpr SF B CD e)|]; inversion H; subst; exact Hx.
 Qed.
-Lemma kblock_ext : forall l B B' rets, kblock SF B CD l = Some (B', rets) -> forall x k, assoc x B = Some k -> assoc x B' = Some k.
+Lemma kblock_ext : forall l il B B' rets, kblock SF il B CD l = Some (B', rets) -> forall x k, assoc x B = Some k -> assoc x B' = Some k.
 Proof.
-  induction l as [|st l IH]; intros B B' rets H x k Hx; cbn [kblock] in H; [inversion H; subst; exact Hx|].
-  destruct (kstmt SF B CD st) as [[B1 r1]|] eqn:Es; [|discriminate]. destruct (kblock SF B1 CD l) as [[B3 r2]|] eqn:El; [|discriminate].
+  induction l as [|st l IH]; intros il B B' rets H x k Hx; cbn [kblock] in H; [inversion H; subst; exact Hx|].
+  destruct (kstmt SF il B CD st) as [[B1 r1]|] eqn:Es; [|discriminate]. destruct (kblock SF il B1 CD l) as [[B3 r2]|] eqn:El; [|discriminate].
   inversion H; subst. eapply IH; [exact El|]. eapply kstmt_ext; eassumption.
 Qed.
 
@@ -1524,9 +1753,33 @@ Proof.
   destruct (str_eqb y x) eqn:E; [left; now apply str_eqb_iff|right; eapply IH; exact H].
 Qed.
 
-(* the result of a block that runs in its own frame (if / loop bodies), relative to the state after the push *)
-Definition bpost (b : cinj) (B : kctx) (rets : list kind) (fin : nat) (env : fenv) (s : rstate) (g0 : gstate) (ap : act) (gp : gstate)
-           (r : sres_) : Prop :=
+Lemma popn_0 : forall env, popn 0 env = env.
+Proof. intros [l c u]. reflexivity. Qed.
+Lemma popn_1 : forall env, popn 1 env = pop_scope env.
+Proof. intros [[|sc l] c u]; reflexivity. Qed.
+Lemma popn_S : forall m env, popn (S m) env = popn m (pop_scope env).
+Proof. intros m [[|sc l] c u]; unfold popn, pop_scope; cbn [locals captured cur tl skipn]; [now destruct m|reflexivity]. Qed.
+
+(* the cells of the names of a context, after the injection has grown *)
+Lemma Cl_names : forall b b' B env s g, ClA b B env s g -> cinj_le b b' ->
+  forall x k, assoc x B = Some k -> uname0 x /\ exists c c', lookup_scopes x (locals env) = Some c /\ b' c c' k.
+Proof.
+  intros b b' B env s g HC Hle x k E. destruct (cl_B _ _ _ _ _ _ _ _ _ _ _ _ HC x k E) as (Hx & c & c' & A1 & _ & A3).
+  split; [exact Hx|]. exists c, c'. split; [exact A1|exact (Hle _ _ _ A3)].
+Qed.
+(* the context of the enclosing scopes, seen from inside a block *)
+Lemma Cl_B_lift : forall b B env2 s g l, ClA b [] env2 s g -> tl (locals env2) = l -> locals env2 <> [] ->
+  (forall x k, assoc x B = Some k -> uname0 x /\ exists c c', lookup_scopes x l = Some c /\ b c c' k) -> ClA b B env2 s g.
+Proof.
+  intros b B env2 s g l HC Htl Hne HB. apply (Cl_B_of path prog cb CD base name SF b B env2 s g HC).
+  intros x k E. destruct (HB x k E) as (Hx & c & c' & A1 & A2). split; [exact Hx|]. exists c, c'. split; [|exact A2].
+  destruct (locals env2) as [|sc2 l2] eqn:El2; [congruence|]. cbn [tl] in Htl. subst l2.
+  apply NS_lookup_tl; [rewrite <- El2; exact (cl_ns _ _ _ _ _ _ _ _ _ _ _ _ HC)|exact (proj2 (proj2 Hx))|exact A1].
+Qed.
+
+(* the result of a block that runs in its own frame (if / else bodies), relative to the state after the push *)
+Definition bpost (b : cinj) (B : kctx) (rets : list kind) (sl : option nat) (bt ct fin : nat) (env : fenv) (s : rstate) (g0 : gstate)
+           (ap : act) (gp : gstate) (r : sres_) : Prop :=
   match r with
   | SOk sig env' s' =>
     same_tl env env' /\
@@ -1534,11 +1787,20 @@ Definition bpost (b : cinj) (B : kctx) (rets : list kind) (fin : nat) (env : fen
     | SigNormal => bound2 B env' /\
         exists a' g' b', xrun prog name code ap gp a' g' /\ bext b b' s gp /\ frames g' = frames g0 /\ act_same ap a' /\
           a_ss ap <= S (a_ss a') /\ keep b gp g' /\ lens s s' gp g' /\ a_ip a' = fin /\ a_ops a' = [] /\ ClA b' B env' s' g'
+    | SigBreak => exists m a' g' b', sl = Some m /\ 1 <= m /\
+        xrun prog name code ap gp a' g' /\ bext b b' s gp /\ act_same ap a' /\ a_ss ap <= S (a_ss a') /\ keep b gp g' /\ lens s s' gp g' /\
+        a_ip a' = bt /\ a_ops a' = [] /\ ClA b' [] (popn m env') s' g' /\ frames g' = skipn m (frames g0)
+    | SigContinue => exists m a' g' b', sl = Some m /\ 1 <= m /\
+        xrun prog name code ap gp a' g' /\ bext b b' s gp /\ act_same ap a' /\ a_ss ap <= S (a_ss a') /\ keep b gp g' /\ lens s s' gp g' /\
+        a_ip a' = ct /\ a_ops a' = [] /\ ClA b' [] (popn (m - 1) env') s' g' /\ tl (frames g') = skipn m (frames g0)
     | SigReturn (Some v) => exists a' g' b' w k,
         xrun prog name code ap gp a' g' /\ nth_error code (a_ip a') = Some (mkI OP_RET []) /\ a_ops a' = [w] /\
         bext b b' s gp /\ heap_ok b' s' g' /\ vrel b' k v w /\ In k rets /\ out g' = rout s' /\
         drop_to_function (frames g') = base /\ keep b gp g' /\ lens s s' gp g'
-    | _ => False
+    | SigReturn None => exists a' g' b',
+        xrun prog name code ap gp a' g' /\ nth_error code (a_ip a') = Some (mkI OP_RET []) /\ a_ops a' = [] /\
+        bext b b' s gp /\ heap_ok b' s' g' /\ In KN rets /\ out g' = rout s' /\
+        drop_to_function (frames g') = base /\ keep b gp g' /\ lens s s' gp g'
     end
   | SFailed f s' => fail_post f (exists e g', xfail prog name code ap gp e g' /\ err_rel_s f e /\ out g' = rout s')
   | SFuel => True
@@ -1547,21 +1809,23 @@ Definition bpost (b : cinj) (B : kctx) (rets : list kind) (fin : nat) (env : fen
 Lemma bound2_eq : forall B env env', bound2 B env -> locals env' = locals env -> bound2 B env'.
 Proof. intros B env env' [H1 H2] E. split; [intros x; rewrite E; apply H1|exact H2]. Qed.
 
-Lemma in_block_sim : forall body, bspec body -> forall b B lr k0 fuel kb a g env s lb B' rets,
-  fuel <= FU -> kblock SF B CD body = Some (B', rets) -> bound2 B env -> installed (snd (bc path c0 lr k0 body)) ->
-  code_at code kb (fst (bc path c0 lr k0 body) ++ [mkI OP_DONE []]) ->
-  kb + length (fst (bc path c0 lr k0 body)) + 1 < length code ->
+Lemma in_block_sim : forall body, bspec body -> forall b B lr il sl bt ct k0 fuel kb a g env s lb B' rets,
+  fuel <= FU -> kblock SF il B CD body = Some (B', rets) -> bound2 B env -> installed (snd (bc path c0 lr (option_map S sl) k0 body)) ->
+  items_at code bt ct kb (fst (bc path c0 lr (option_map S sl) k0 body) ++ [I OP_DONE []]) ->
+  kb + length (fst (bc path c0 lr (option_map S sl) k0 body)) + 1 < length code ->
+  lcok il sl bt ct env (kb + length (fst (bc path c0 lr (option_map S sl) k0 body)) + 1) ->
   a_ip a = kb -> a_cb a = cb -> a_ops a = [] -> length (locals env) <= S (a_ss a) -> ClA b B env s g -> special lb = true ->
-  bpost b B rets (kb + length (fst (bc path c0 lr k0 body)) + 1) env s g (set_ss a (S (a_ss a))) (push_frame g lb)
+  bpost b B rets sl bt ct (kb + length (fst (bc path c0 lr (option_map S sl) k0 body)) + 1) env s g (set_ss a (S (a_ss a))) (push_frame g lb)
         (in_block_ fuel body env s).
 Proof.
-  intros body Hbody b B lr k0 fuel kb a g env s lb B' rets Hfu Hk Hb Hinst Hc Hend Hip Hcb Hops Hss HC Hlb.
-  set (len := length (fst (bc path c0 lr k0 body))) in *.
-  apply code_at_app in Hc as [Hcb0 Hid]. apply code_at_cons in Hid as [Hid _]. fold len in Hid.
+  intros body Hbody b B lr il sl bt ct k0 fuel kb a g env s lb B' rets Hfu Hk Hb Hinst Hc Hend Hlc Hip Hcb Hops Hss HC Hlb.
+  set (len := length (fst (bc path c0 lr (option_map S sl) k0 body))) in *.
+  apply items_at_app in Hc as [Hcb0 Hid]. apply items_at_cons in Hid as [Hid _]. cbn [item_instr I] in Hid. fold len in Hid.
   set (ap := set_ss a (S (a_ss a))). set (gp := push_frame g lb).
   assert (HC0 : ClA b B (push_scope env) s gp) by (apply Cl_push; assumption).
   assert (Hb0 : bound2 B (push_scope env)) by (destruct Hb as [X1 X2]; split; [intros x; cbn [push_scope locals lookup_scopes assoc]; apply X1|exact X2]).
-  pose proof (Hbody b B lr k0 fuel kb ap gp (push_scope env) s B' rets Hfu Hk Hb0 Hinst Hcb0 ltac:(left; fold len; lia)
+  pose proof (Hbody b B lr il (option_map S sl) bt ct k0 fuel kb ap gp (push_scope env) s B' rets Hfu Hk Hb0 Hinst Hcb0 ltac:(left; fold len; lia)
+                ltac:(eapply lcok_block; [exact Hlc|fold len; lia])
                 Hip Hcb Hops ltac:(cbn [push_scope locals length ap set_ss a_ss]; lia) HC0) as H.
   fold len in H. unfold in_block_.
   destruct (exec_block fuel (push_scope env) body s) as [sig env2 s2|f s2|]; [|exact H|exact Logic.I].
@@ -1570,43 +1834,121 @@ Proof.
   assert (Hd' : same_tl env (pop_scope env2)).
   { split; cbn [pop_scope locals]; rewrite Htl; [reflexivity|exact (Cl_ne _ _ _ _ _ _ _ _ _ _ _ _ HC)]. }
   split; [exact Hd'|].
-  destruct sig as [| | |[v|]]; try contradiction; [|exact H].
-  destruct H as (HB2 & a2 & g2 & b2 & SM2 & Hip2 & Hops2 & HC2).
-  unfold smid in SM2. destruct SM2 as (R2 & E2 & T2 & A2 & S2 & K2 & L2).
-  set (i1 := mkI OP_DONE []) in *.
-  set (g2t := trc name a2 g2 i1).
-  pose proof (Cl_trc b2 B' env2 s2 g2 name a2 i1 HC2) as HC2t. fold g2t in HC2t.
-  destruct (locals env2) as [|sc2 l2] eqn:El2; [congruence|]. cbn [tl] in Htl. subst l2.
-  destruct (frames g2t) as [|f2 fs2] eqn:Ef2; [exact (False_ind _ (proj2 (Rfr2_ne _ _ _ (cl_fr _ _ _ _ _ _ _ _ _ _ _ _ HC2t)) Ef2))|].
-  assert (Efs : fs2 = frames g).
-  { assert (Ht : tl (frames g2t) = frames g) by (change (frames g2t) with (frames g2); rewrite T2; reflexivity). rewrite Ef2 in Ht. exact Ht. }
-  subst fs2.
-  assert (HC3 : ClA b2 B (pop_scope env2) s2 (with_frames g2t (frames g))).
-  { apply (Cl_pop path prog cb CD base name SF b2 B' B env2 s2 g2t sc2 (locals env) f2 (frames g) HC2t El2 (Cl_ne _ _ _ _ _ _ _ _ _ _ _ _ HC) Ef2).
-    intros x k Hx. split; [eapply kblock_ext; eassumption|]. apply (proj1 Hb). eapply assoc_in_keys; exact Hx. }
-  split; [eapply bound2_eq; [exact Hb|cbn [pop_scope locals]; rewrite El2; reflexivity]|].
-  cbn [ap set_ss a_ss] in S2. destruct (a_ss a2) as [|ss2] eqn:Ess2; [lia|].
-  exists (set_ip (set_ss a2 ss2) (S (a_ip a2))), (with_frames g2t (frames g)), b2.
-  split; [|split; [exact E2|split; [reflexivity|split; [destruct A2 as (X1 & X2 & X3); repeat split; assumption|
-          split; [cbn [ap set_ip set_ss a_ss]; lia|split; [exact K2|split; [exact L2|split; [cbn [set_ip a_ip]; lia|split; [exact Hops2|exact HC3]]]]]]]]].
-  eapply xrun_trans; [exact R2|].
-  eapply (xstep_popscope prog name code a2 g2 i1 _ (kb + len) a2 _ ss2); [exact Hip2|exact Hid|apply dec_done|apply exec_done|exact Ess2|].
-  unfold pop_frame. fold g2t. rewrite Ef2. reflexivity.
+  destruct sig as [| | |[v|]]; [| | |exact H|exact H].
+  - destruct H as (HB2 & a2 & g2 & b2 & SM2 & Hip2 & Hops2 & HC2).
+    unfold smid in SM2. destruct SM2 as (R2 & E2 & T2 & A2 & S2 & K2 & L2).
+    set (i1 := mkI OP_DONE []) in *.
+    set (g2t := trc name a2 g2 i1).
+    pose proof (Cl_trc b2 B' env2 s2 g2 name a2 i1 HC2) as HC2t. fold g2t in HC2t.
+    destruct (locals env2) as [|sc2 l2] eqn:El2; [congruence|]. cbn [tl] in Htl. subst l2.
+    destruct (frames g2t) as [|f2 fs2] eqn:Ef2; [exact (False_ind _ (proj2 (Rfr2_ne _ _ _ (cl_fr _ _ _ _ _ _ _ _ _ _ _ _ HC2t)) Ef2))|].
+    assert (Efs : fs2 = frames g).
+    { assert (Ht : tl (frames g2t) = frames g) by (change (frames g2t) with (frames g2); rewrite T2; reflexivity). rewrite Ef2 in Ht. exact Ht. }
+    subst fs2.
+    assert (HC3 : ClA b2 B (pop_scope env2) s2 (with_frames g2t (frames g))).
+    { apply (Cl_pop path prog cb CD base name SF b2 B' B env2 s2 g2t sc2 (locals env) f2 (frames g) HC2t El2 (Cl_ne _ _ _ _ _ _ _ _ _ _ _ _ HC) Ef2).
+      intros x k Hx. split; [eapply kblock_ext; eassumption|]. apply (proj1 Hb). eapply assoc_in_keys; exact Hx. }
+    split; [eapply bound2_eq; [exact Hb|cbn [pop_scope locals]; rewrite El2; reflexivity]|].
+    cbn [ap set_ss a_ss] in S2. destruct (a_ss a2) as [|ss2] eqn:Ess2; [lia|].
+    exists (set_ip (set_ss a2 ss2) (S (a_ip a2))), (with_frames g2t (frames g)), b2.
+    split; [|split; [exact E2|split; [reflexivity|split; [destruct A2 as (X1 & X2 & X3); repeat split; assumption|
+            split; [cbn [ap set_ip set_ss a_ss]; lia|split; [exact K2|split; [exact L2|split; [cbn [set_ip a_ip]; lia|split; [exact Hops2|exact HC3]]]]]]]]].
+    eapply xrun_trans; [exact R2|].
+    eapply (xstep_popscope prog name code a2 g2 i1 _ (kb + len) a2 _ ss2); [exact Hip2|exact Hid|apply dec_done|apply exec_done|exact Ess2|].
+    unfold pop_frame. fold g2t. rewrite Ef2. reflexivity.
+  - (* break *)
+    destruct H as (m' & a2 & g2 & b2 & Hsl & Hm' & J & Hip2 & Hops2 & HC2 & Hf2).
+    destruct sl as [m|]; [|discriminate]. cbn [option_map] in Hsl. inversion Hsl; subst m'.
+    destruct Hlc as [_ Hlc]. destruct (Hlc m eq_refl) as (Hm1 & _).
+    unfold jmid in J. destruct J as (R2 & E2 & A2 & S2 & K2 & L2).
+    exists m, a2, g2, b2. split; [reflexivity|]. split; [exact Hm1|]. split; [exact R2|]. split; [exact E2|]. split; [exact A2|].
+    split; [lia|]. split; [exact K2|]. split; [exact L2|]. split; [exact Hip2|]. split; [exact Hops2|].
+    split; [rewrite <- popn_S; exact HC2|]. rewrite Hf2. reflexivity.
+  - (* continue *)
+    destruct H as (m' & a2 & g2 & b2 & Hsl & Hm' & J & Hip2 & Hops2 & HC2 & Hf2).
+    destruct sl as [m|]; [|discriminate]. cbn [option_map] in Hsl. inversion Hsl; subst m'.
+    destruct Hlc as [_ Hlc]. destruct (Hlc m eq_refl) as (Hm1 & _).
+    unfold jmid in J. destruct J as (R2 & E2 & A2 & S2 & K2 & L2).
+    exists m, a2, g2, b2. split; [reflexivity|]. split; [exact Hm1|]. split; [exact R2|]. split; [exact E2|]. split; [exact A2|].
+    split; [lia|]. split; [exact K2|]. split; [exact L2|]. split; [exact Hip2|]. split; [exact Hops2|].
+    split; [|rewrite Hf2; reflexivity].
+    replace (S m - 1) with m in HC2 by lia. destruct m as [|m0]; [lia|]. replace (S m0 - 1) with m0 by lia. rewrite <- popn_S. exact HC2.
 Qed.
+
+(* from the block (in its frame) back to the statement; after a normal completion at ffin the machine runs on to fin
+   (the `jmp` over an else branch) *)
+Lemma spost_of_bpost : forall b B rr rets sl bt ct ffin fin env s a g b1 s1 a1 g1 g0 ap gp r,
+  (forall k, In k rr -> In k rets) ->
+  smid b s a g b1 s1 a1 g1 -> xrun prog name code a1 g1 ap gp -> frames g0 = frames g1 ->
+  a_ss ap = S (a_ss a1) -> act_same a1 ap -> cells gp = cells g1 ->
+  (forall a2 g2, a_ip a2 = ffin -> a_ops a2 = [] -> exists a3 g3, xrun prog name code a2 g2 a3 g3 /\ a_ip a3 = fin /\ a_ops a3 = [] /\
+       frames g3 = frames g2 /\ cells g3 = cells g2 /\ out g3 = out g2 /\ act_same a2 a3 /\ a_ss a3 = a_ss a2) ->
+  bpost b1 B rr sl bt ct ffin env s1 g0 ap gp r -> spost b B rets sl bt ct fin env s a g r.
+Proof.
+  intros b B rr rets sl bt ct ffin fin env s a g b1 s1 a1 g1 g0 ap gp r Hrr SM1 Rp Ef0 Hssp Hap Ecp Htail Hblk.
+  assert (Hbx : forall b2, bext b1 b2 s1 gp -> bext b1 b2 s1 g1) by (intros b2 E; unfold bext in *; rewrite <- Ecp; exact E).
+  assert (Hkx : forall g2, keep b1 gp g2 -> keep b1 g1 g2) by (intros g2 K c' w0 Hc'; apply K; unfold cell_get in *; rewrite Ecp; exact Hc').
+  assert (Hlx : forall s2 g2, lens s1 s2 gp g2 -> lens s1 s2 g1 g2) by (intros s2 g2 L; unfold lens in *; rewrite <- Ecp; exact L).
+  assert (Hjm : forall b2 s2 a2 g2, xrun prog name code ap gp a2 g2 -> bext b1 b2 s1 gp -> act_same ap a2 -> a_ss ap <= S (a_ss a2) ->
+            keep b1 gp g2 -> lens s1 s2 gp g2 -> jmid b s a g b2 s2 a2 g2).
+  { intros b2 s2 a2 g2 R2 E2 A2 S2 K2 L2. eapply jmid_trans; [apply jmid_of_smid; exact SM1|]. unfold jmid.
+    split; [eapply xrun_trans; [exact Rp|exact R2]|]. split; [exact (Hbx _ E2)|].
+    split; [eapply act_same_trans; [exact Hap|exact A2]|]. split; [lia|]. split; [exact (Hkx _ K2)|exact (Hlx _ _ L2)]. }
+  assert (HT1 : tl (frames g1) = tl (frames g)) by (unfold smid in SM1; exact (proj1 (proj2 (proj2 SM1)))).
+  destruct r as [sig env2 s2|f s2|]; cbn [bpost spost] in Hblk |- *; [| |exact Logic.I].
+  - destruct Hblk as [Hd H]. split; [exact Hd|]. destruct sig as [| | |[v|]].
+    + destruct H as (HB2 & a2 & g2 & b2 & R2 & E2 & F2 & A2 & S2 & K2 & L2 & Hip2 & Hops2 & HC2). split; [exact HB2|].
+      destruct (Htail a2 g2 Hip2 Hops2) as (a3 & g3 & R3 & Hip3 & Hops3 & F3 & C3 & O3 & A3 & S3).
+      exists a3, g3, b2. split; [|split; [exact Hip3|split; [exact Hops3|eapply Cl_same; [exact HC2|exact C3|exact F3|exact O3]]]].
+      eapply smid_trans; [exact SM1|]. unfold smid.
+      split; [eapply xrun_trans; [exact Rp|]; eapply xrun_trans; [exact R2|exact R3]|]. split; [exact (Hbx _ E2)|].
+      split; [rewrite F3, F2, Ef0; reflexivity|].
+      split; [destruct A2 as (X1 & X2 & X3); destruct A3 as (Y1 & Y2 & Y3); destruct Hap as (Z1 & Z2 & Z3); repeat split; congruence|].
+      split; [rewrite S3; lia|].
+      split; [intros c' w0 Hc' Hn0; unfold cell_get; rewrite C3; exact (Hkx _ K2 c' w0 Hc' Hn0)|].
+      destruct (Hlx _ _ L2) as [L2a L2b]. split; [exact L2a|rewrite C3; exact L2b].
+    + destruct H as (m & a2 & g2 & b2 & Hsl & Hm & R2 & E2 & A2 & S2 & K2 & L2 & Hip2 & Hops2 & HC2 & Hf2).
+      exists m, a2, g2, b2. split; [exact Hsl|]. split; [exact Hm|]. split; [exact (Hjm _ _ _ _ R2 E2 A2 S2 K2 L2)|].
+      split; [exact Hip2|]. split; [exact Hops2|]. split; [exact HC2|]. rewrite Hf2, Ef0. apply skipn_tl_eq; [exact Hm|exact HT1].
+    + destruct H as (m & a2 & g2 & b2 & Hsl & Hm & R2 & E2 & A2 & S2 & K2 & L2 & Hip2 & Hops2 & HC2 & Hf2).
+      exists m, a2, g2, b2. split; [exact Hsl|]. split; [exact Hm|]. split; [exact (Hjm _ _ _ _ R2 E2 A2 S2 K2 L2)|].
+      split; [exact Hip2|]. split; [exact Hops2|]. split; [exact HC2|]. rewrite Hf2, Ef0. apply skipn_tl_eq; [exact Hm|exact HT1].
+    + destruct H as (a2 & g2 & b2 & w & k & R2 & Hi2' & Hops2 & E2 & Hh2 & Hv2 & Hk2 & Ho2 & Hdr2 & K2 & L2).
+      unfold smid in SM1. destruct SM1 as (R1 & E1 & T1 & A1 & S1 & K1 & L1).
+      exists a2, g2, b2, w, k. split; [eapply xrun_trans; [exact R1|]; eapply xrun_trans; [exact Rp|exact R2]|].
+      split; [exact Hi2'|]. split; [exact Hops2|].
+      split; [eapply bext_trans; [exact E1|exact (Hbx _ E2)|exact (proj1 L1)|exact (proj2 L1)]|]. split; [exact Hh2|]. split; [exact Hv2|].
+      split; [exact (Hrr _ Hk2)|]. split; [exact Ho2|]. split; [exact Hdr2|]. split; [eapply keep_trans; [exact K1|exact E1|exact (Hkx _ K2)]|eapply lens_trans; [exact L1|exact (Hlx _ _ L2)]].
+    + destruct H as (a2 & g2 & b2 & R2 & Hi2' & Hops2 & E2 & Hh2 & Hk2 & Ho2 & Hdr2 & K2 & L2).
+      unfold smid in SM1. destruct SM1 as (R1 & E1 & T1 & A1 & S1 & K1 & L1).
+      exists a2, g2, b2. split; [eapply xrun_trans; [exact R1|]; eapply xrun_trans; [exact Rp|exact R2]|].
+      split; [exact Hi2'|]. split; [exact Hops2|].
+      split; [eapply bext_trans; [exact E1|exact (Hbx _ E2)|exact (proj1 L1)|exact (proj2 L1)]|]. split; [exact Hh2|].
+      split; [exact (Hrr _ Hk2)|]. split; [exact Ho2|]. split; [exact Hdr2|]. split; [eapply keep_trans; [exact K1|exact E1|exact (Hkx _ K2)]|eapply lens_trans; [exact L1|exact (Hlx _ _ L2)]].
+  - eapply fail_post_map; [|exact Hblk]. intros (e0 & g' & Hf & Hr). exists e0, g'.
+    split; [eapply smid_fail; [exact SM1|]; eapply xrun_fail; [exact Rp|exact Hf]|exact Hr].
+Qed.
+Lemma no_tail : forall fin a2 g2, a_ip a2 = fin -> a_ops a2 = [] -> exists a3 g3, xrun prog name code a2 g2 a3 g3 /\ a_ip a3 = fin /\ a_ops a3 = [] /\
+       frames g3 = frames g2 /\ cells g3 = cells g2 /\ out g3 = out g2 /\ act_same a2 a3 /\ a_ss a3 = a_ss a2.
+Proof. intros fin a2 g2 Hip Hops. exists a2, g2. split; [apply xrun_refl|]. split; [exact Hip|]. split; [exact Hops|]. repeat split. Qed.
+
+Ltac atpi H := first [exact H | match type of H with
+  | items_at _ _ _ ?p _ => match goal with |- items_at _ _ _ ?q _ => replace q with p by lia; exact H end end].
 
 (* ---------------------------------------------------------------- if *)
 Lemma if_sim : forall cnd body, bspec body -> sspec (SIf cnd body).
 Proof.
-  intros cnd body Hbody b B lr k0 fuel kp a g env s B' rets Hfu Hk Hb Hinst Hc Hend Hip Hcb Hops Hss HC.
+  intros cnd body Hbody b B lr il sl bt ct k0 fuel kp a g env s B' rets Hfu Hk Hb Hinst Hc Hend Hlc Hip Hcb Hops Hss HC.
   destruct Hend as [Hend|[Hend _]]; [|discriminate Hend].
   rewrite kstmt_SIf in Hk. destruct (kexpr SF B CD cnd) as [[|? ?|]|] eqn:Ec; try discriminate. cbn [is_KD] in Hk.
-  destruct (kblock SF B CD body) as [[B1 rb]|] eqn:Eb; [|discriminate]. inversion Hk; subst B' rets.
+  destruct (kblock SF il B CD body) as [[B1 rb]|] eqn:Eb; [|discriminate]. inversion Hk; subst B' rets.
   destruct fuel as [|fuel]; [exact Logic.I|]. rewrite exec_SIf.
   rewrite sc_SIf in *. destruct (ec path c0 lr k0 cnd) as [cc fc] eqn:Eec.
-  destruct (bc path c0 lr (k0 + length fc) body) as [cb0 fb] eqn:Ebc. cbn [fst snd] in *. cbv zeta in *.
-  rewrite !app_length in *. cbn [length] in *.
+  destruct (bc path c0 lr (option_map S sl) (k0 + length fc) body) as [cb0 fb] eqn:Ebc. cbn [fst snd] in *. cbv zeta in *.
+  rewrite !app_length, ?map_length in *. cbn [length] in *.
   apply (installed_app prog) in Hinst as [Hin1 Hin2].
-  apply code_at_app in Hc as [Hce Hi]. apply code_at_cons in Hi as [Hi1 Hib].
+  apply items_at_app in Hc as [Hce Hi]. apply items_at_CI in Hce. rewrite map_length in Hi.
+  apply items_at_cons in Hi as [Hi1 Hib]. cbn [item_instr I] in Hi1.
   pose proof (espec_all cnd b B c0 lr k0 fuel kp a g env s KD ltac:(lia) Ec Hb) as He. rewrite Eec in He. cbn [fst snd] in He.
   specialize (He Hin1 ltac:(lia) Hce ltac:(lia) Hip Hcb Hops HC).
   destruct (eval fuel env cnd s) as [v s1|s1|f s1|]; cbn [eres_ok spost] in He |- *; [|exact Logic.I|exact He|exact Logic.I].
@@ -1620,8 +1962,8 @@ Proof.
   pose proof (Cl_trc b1 B env s1 g1 name a1 i1 HC1) as HC1t. fold g1t in HC1t.
   assert (Hcb1 : a_cb a1 = cb) by (unfold smid in SM1; destruct SM1 as (_ & _ & _ & (_ & _ & A) & _); congruence).
   assert (Hss1 : a_ss a1 = a_ss a) by (unfold mid, rest in M1; destruct M1 as (_ & _ & _ & _ & S1 & _); exact S1).
-  assert (Hnb : (forall b0, v <> RBool b0) -> spost b B rb (kp + (length cc + (1 + (length cb0 + 1)))) env s a g (SFailed (FType 12) s1)).
-  { intros Hv. apply (spost_fail_e b B rb _ env s a g (FType 12) s1 E_not_bool g1t); [|cbn; auto|exact (cl_out _ _ _ _ _ _ _ _ _ _ _ _ HC1)].
+  assert (Hnb : (forall b0, v <> RBool b0) -> spost b B rb sl bt ct (kp + (length cc + (1 + (length cb0 + 1)))) env s a g (SFailed (FType 12) s1)).
+  { intros Hv. apply (spost_fail_e b B rb sl bt ct _ env s a g (FType 12) s1 E_not_bool g1t); [|cbn; auto|exact (cl_out _ _ _ _ _ _ _ _ _ _ _ _ HC1)].
     eapply smid_fail; [exact SM1|]. eapply xstep_fail; [exact Hip1|exact Hi1|exact Hdec|].
     apply (exec_if_nb _ a1 g1t (inj v)); [exact Hops1|now apply not_bool_inj]. }
   destruct v as [z|bv|t| |p bd ev]; try (apply Hnb; intros b0; discriminate).
@@ -1631,28 +1973,14 @@ Proof.
     set (a1' := set_ip (set_ops a1 []) (S (a_ip a1))).
     assert (Rp : xrun prog name code a1 g1 (set_ss a1' (S (a_ss a1'))) (push_frame g1t LIf)).
     { eapply (xstep_push prog name code a1 g1 i1 _ k1 LIf (set_ops a1 [])); [exact Hip1|exact Hi1|exact Hdec|exact Hx]. }
-    pose proof (in_block_sim body Hbody b1 B lr (k0 + length fc) fuel (S k1) a1' g1t env s1 LIf B1 rb ltac:(lia) Eb Hb) as Hblk.
+    pose proof (in_block_sim body Hbody b1 B lr il sl bt ct (k0 + length fc) fuel (S k1) a1' g1t env s1 LIf B1 rb ltac:(lia) Eb Hb) as Hblk.
     rewrite Ebc in Hblk. cbn [fst snd] in Hblk.
-    specialize (Hblk Hin2 ltac:(atp Hib) ltac:(unfold k1; lia) ltac:(cbn [a1' set_ip a_ip]; lia) Hcb1 eq_refl
+    specialize (Hblk Hin2 ltac:(atpi Hib) ltac:(unfold k1; lia) ltac:(eapply lcok_mono; [exact Hlc|unfold k1; lia|reflexivity])
+                     ltac:(cbn [a1' set_ip a_ip]; lia) Hcb1 eq_refl
                      ltac:(cbn [a1' set_ip set_ops a_ss]; rewrite Hss1; exact Hss) HC1t eq_refl).
     assert (Efin : S k1 + length cb0 + 1 = kp + (length cc + (1 + (length cb0 + 1)))) by (unfold k1; lia).
     rewrite Efin in Hblk.
-    destruct (in_block_ fuel body env s1) as [sig env2 s2|f s2|]; cbn [bpost spost] in Hblk |- *; [| |exact Logic.I].
-    + destruct Hblk as [Hd H]. split; [exact Hd|]. destruct sig as [| | |[v|]]; try contradiction.
-      * destruct H as (HB2 & a2 & g2 & b2 & R2 & E2 & F2 & A2 & S2 & K2 & L2 & Hip2 & Hops2 & HC2). split; [exact HB2|].
-        exists a2, g2, b2. split; [|auto].
-        eapply smid_trans; [exact SM1|]. unfold smid.
-        split; [eapply xrun_trans; [exact Rp|exact R2]|]. split; [exact E2|]. split; [rewrite F2; reflexivity|].
-        split; [destruct A2 as (X1 & X2 & X3); repeat split; assumption|].
-        split; [cbn [set_ss a_ss a1' set_ip set_ops] in S2; lia|]. split; [exact K2|exact L2].
-      * destruct H as (a2 & g2 & b2 & w & k & R2 & Hi2 & Hops2 & E2 & Hh2 & Hv2 & Hk2 & Ho2 & Hdr2 & K2 & L2).
-        unfold smid in SM1. destruct SM1 as (R1 & E1 & T1 & A1 & S1 & K1 & L1).
-        exists a2, g2, b2, w, k. split; [eapply xrun_trans; [exact R1|]; eapply xrun_trans; [exact Rp|exact R2]|].
-        split; [exact Hi2|]. split; [exact Hops2|].
-        split; [eapply bext_trans; [exact E1|exact E2|exact (proj1 L1)|exact (proj2 L1)]|]. split; [exact Hh2|]. split; [exact Hv2|].
-        split; [exact Hk2|]. split; [exact Ho2|]. split; [exact Hdr2|]. split; [eapply keep_trans; [exact K1|exact E1|exact K2]|eapply lens_trans; [exact L1|exact L2]].
-    + eapply fail_post_map; [|exact Hblk]. intros (e0 & g' & Hf & Hr). exists e0, g'.
-      split; [eapply smid_fail; [exact SM1|]; eapply xrun_fail; [exact Rp|exact Hf]|exact Hr].
+    exact (spost_of_bpost b B rb rb sl bt ct _ _ env s a g b1 s1 a1 g1 g1t _ _ _ (fun k H => H) SM1 Rp eq_refl eq_refl ltac:(repeat split) eq_refl (no_tail _) Hblk).
   - (* false: jump over the body *)
     split; [apply same_tl_refl; exact (Cl_ne _ _ _ _ _ _ _ _ _ _ _ _ HC)|]. split; [exact Hb|].
     exists (set_ip (set_ops a1 []) (a_ip (set_ops a1 []) + off)), g1t, b1.
@@ -1665,20 +1993,21 @@ Qed.
 (* ---------------------------------------------------------------- if / else *)
 Lemma ifelse_sim : forall cnd body els, bspec body -> bspec els -> sspec (SIfElse cnd body els).
 Proof.
-  intros cnd body els Hbody Hels b B lr k0 fuel kp a g env s B' rets Hfu Hk Hb Hinst Hc Hend Hip Hcb Hops Hss HC.
+  intros cnd body els Hbody Hels b B lr il sl bt ct k0 fuel kp a g env s B' rets Hfu Hk Hb Hinst Hc Hend Hlc Hip Hcb Hops Hss HC.
   destruct Hend as [Hend|[Hend _]]; [|discriminate Hend].
   rewrite kstmt_SIfElse in Hk. destruct (kexpr SF B CD cnd) as [[|? ?|]|] eqn:Ec; try discriminate. cbn [is_KD] in Hk.
-  destruct (kblock SF B CD body) as [[B1 rb]|] eqn:Eb; [|discriminate].
-  destruct (kblock SF B CD els) as [[B2 re]|] eqn:Ee; [|discriminate]. inversion Hk; subst B' rets.
+  destruct (kblock SF il B CD body) as [[B1 rb]|] eqn:Eb; [|discriminate].
+  destruct (kblock SF il B CD els) as [[B2 re]|] eqn:Ee; [|discriminate]. inversion Hk; subst B' rets.
   destruct fuel as [|fuel]; [exact Logic.I|]. rewrite exec_SIfElse.
   rewrite sc_SIfElse in *. destruct (ec path c0 lr k0 cnd) as [cc fc] eqn:Eec.
-  destruct (bc path c0 lr (k0 + length fc) body) as [cb0 fb] eqn:Ebc.
-  destruct (bc path c0 lr (k0 + length fc + length fb) els) as [ce0 fe] eqn:Ebe. cbn [fst snd] in *. cbv zeta in *.
-  rewrite !app_length in *. cbn [length] in *. rewrite !app_length in *. cbn [length] in *.
+  destruct (bc path c0 lr (option_map S sl) (k0 + length fc) body) as [cb0 fb] eqn:Ebc.
+  destruct (bc path c0 lr (option_map S sl) (k0 + length fc + length fb) els) as [ce0 fe] eqn:Ebe. cbn [fst snd] in *. cbv zeta in *.
+  rewrite !app_length, ?map_length in *. cbn [length] in *. rewrite !app_length in *. cbn [length] in *.
   apply (installed_app prog) in Hinst as [Hin1 Hin2]. apply (installed_app prog) in Hin2 as [Hin2 Hin3].
-  apply code_at_app in Hc as [Hce Hi]. apply code_at_cons in Hi as [Hi1 Hi].
-  apply code_at_app in Hi as [Hib Hi]. rewrite app_length in Hi. cbn [length] in Hi.
-  apply code_at_cons in Hi as [Hi2 Hi]. apply code_at_cons in Hi as [Hi3 Hie].
+  apply items_at_app in Hc as [Hce Hi]. apply items_at_CI in Hce. rewrite map_length in Hi.
+  apply items_at_cons in Hi as [Hi1 Hi]. cbn [item_instr I] in Hi1.
+  apply items_at_app in Hi as [Hib Hi]. rewrite app_length in Hi. cbn [length] in Hi.
+  apply items_at_cons in Hi as [Hi2 Hi]. apply items_at_cons in Hi as [Hi3 Hie]. cbn [item_instr I] in Hi2, Hi3.
   pose proof (espec_all cnd b B c0 lr k0 fuel kp a g env s KD ltac:(lia) Ec Hb) as He. rewrite Eec in He. cbn [fst snd] in He.
   specialize (He Hin1 ltac:(lia) Hce ltac:(lia) Hip Hcb Hops HC).
   destruct (eval fuel env cnd s) as [v s1|s1|f s1|]; cbn [eres_ok spost] in He |- *; [|exact Logic.I|exact He|exact Logic.I].
@@ -1697,54 +2026,24 @@ Proof.
   pose proof (Cl_trc b1 B env s1 g1 name a1 i1 HC1) as HC1t. fold g1t in HC1t.
   assert (Hcb1 : a_cb a1 = cb) by (unfold smid in SM1; destruct SM1 as (_ & _ & _ & (_ & _ & A) & _); congruence).
   assert (Hss1 : a_ss a1 = a_ss a) by (unfold mid, rest in M1; destruct M1 as (_ & _ & _ & _ & S1 & _); exact S1).
-  assert (Hnb : (forall b0, v <> RBool b0) -> spost b B (rb ++ re) fin env s a g (SFailed (FType 12) s1)).
-  { intros Hv. apply (spost_fail_e b B (rb ++ re) _ env s a g (FType 12) s1 E_not_bool g1t); [|cbn; auto|exact (cl_out _ _ _ _ _ _ _ _ _ _ _ _ HC1)].
+  assert (Hnb : (forall b0, v <> RBool b0) -> spost b B (rb ++ re) sl bt ct fin env s a g (SFailed (FType 12) s1)).
+  { intros Hv. apply (spost_fail_e b B (rb ++ re) sl bt ct _ env s a g (FType 12) s1 E_not_bool g1t); [|cbn; auto|exact (cl_out _ _ _ _ _ _ _ _ _ _ _ _ HC1)].
     eapply smid_fail; [exact SM1|]. eapply xstep_fail; [exact Hip1|exact Hi1|exact Hdec|].
     apply (exec_if_nb _ a1 g1t (inj v)); [exact Hops1|now apply not_bool_inj]. }
   destruct v as [z|bv|t| |p bd ev]; try (apply Hnb; intros b0; discriminate).
   pose proof (exec_if (Z.of_nat off) a1 g1t bv Hops1) as Hx.
-  (* what remains after a block has run in its frame: the same for both branches *)
-  assert (Hafter : forall blk rr ap gp (Rp : xrun prog name code a1 g1 ap gp) ffin,
-            (forall k, In k rr -> In k (rb ++ re)) ->
-            (forall a2 g2, a_ip a2 = ffin -> a_ops a2 = [] -> exists a3 g3, xrun prog name code a2 g2 a3 g3 /\ a_ip a3 = fin /\ a_ops a3 = [] /\
-                 frames g3 = frames g2 /\ cells g3 = cells g2 /\ out g3 = out g2 /\ act_same a2 a3 /\ a_ss a3 = a_ss a2) ->
-            a_ss ap = S (a_ss a1) -> act_same a1 ap -> cells gp = cells g1 ->
-            bpost b1 B rr ffin env s1 g1t ap gp (in_block_ fuel blk env s1) ->
-            spost b B (rb ++ re) fin env s a g (in_block_ fuel blk env s1)).
-  { intros blk rr ap gp Rp ffin Hrr Htail Hssp Hap Ecp Hblk.
-    assert (Hbx : forall b2, bext b1 b2 s1 gp -> bext b1 b2 s1 g1) by (intros b2 E; unfold bext in *; rewrite <- Ecp; exact E).
-    assert (Hkx : forall g2, keep b1 gp g2 -> keep b1 g1 g2) by (intros g2 K c' w0 Hc'; apply K; unfold cell_get in *; rewrite Ecp; exact Hc').
-    assert (Hlx : forall s2 g2, lens s1 s2 gp g2 -> lens s1 s2 g1 g2) by (intros s2 g2 L; unfold lens in *; rewrite <- Ecp; exact L).
-    destruct (in_block_ fuel blk env s1) as [sig env2 s2|f s2|]; cbn [bpost spost] in Hblk |- *; [| |exact Logic.I].
-    + destruct Hblk as [Hd H]. split; [exact Hd|]. destruct sig as [| | |[v|]]; try contradiction.
-      * destruct H as (HB2 & a2 & g2 & b2 & R2 & E2 & F2 & A2 & S2 & K2 & L2 & Hip2 & Hops2 & HC2). split; [exact HB2|].
-        destruct (Htail a2 g2 Hip2 Hops2) as (a3 & g3 & R3 & Hip3 & Hops3 & F3 & C3 & O3 & A3 & S3).
-        exists a3, g3, b2. split; [|split; [exact Hip3|split; [exact Hops3|eapply Cl_same; [exact HC2|exact C3|exact F3|exact O3]]]].
-        eapply smid_trans; [exact SM1|]. unfold smid.
-        split; [eapply xrun_trans; [exact Rp|]; eapply xrun_trans; [exact R2|exact R3]|]. split; [exact (Hbx _ E2)|].
-        split; [rewrite F3, F2; reflexivity|].
-        split; [destruct A2 as (X1 & X2 & X3); destruct A3 as (Y1 & Y2 & Y3); destruct Hap as (Z1 & Z2 & Z3); repeat split; congruence|].
-        split; [rewrite S3; lia|].
-        split; [intros c' w0 Hc' Hn0; unfold cell_get; rewrite C3; exact (Hkx _ K2 c' w0 Hc' Hn0)|].
-        destruct (Hlx _ _ L2) as [L2a L2b]. split; [exact L2a|rewrite C3; exact L2b].
-      * destruct H as (a2 & g2 & b2 & w & k & R2 & Hi2' & Hops2 & E2 & Hh2 & Hv2 & Hk2 & Ho2 & Hdr2 & K2 & L2).
-        unfold smid in SM1. destruct SM1 as (R1 & E1 & T1 & A1 & S1 & K1 & L1).
-        exists a2, g2, b2, w, k. split; [eapply xrun_trans; [exact R1|]; eapply xrun_trans; [exact Rp|exact R2]|].
-        split; [exact Hi2'|]. split; [exact Hops2|].
-        split; [eapply bext_trans; [exact E1|exact (Hbx _ E2)|exact (proj1 L1)|exact (proj2 L1)]|]. split; [exact Hh2|]. split; [exact Hv2|].
-        split; [exact (Hrr _ Hk2)|]. split; [exact Ho2|]. split; [exact Hdr2|]. split; [eapply keep_trans; [exact K1|exact E1|exact (Hkx _ K2)]|eapply lens_trans; [exact L1|exact (Hlx _ _ L2)]].
-    + eapply fail_post_map; [|exact Hblk]. intros (e0 & g' & Hf & Hr). exists e0, g'.
-      split; [eapply smid_fail; [exact SM1|]; eapply xrun_fail; [exact Rp|exact Hf]|exact Hr]. }
   destruct bv.
   - (* true: push <if>, run the body, done, jump over the else branch *)
     set (a1' := set_ip (set_ops a1 []) (S (a_ip a1))).
     assert (Rp : xrun prog name code a1 g1 (set_ss a1' (S (a_ss a1'))) (push_frame g1t LIf)).
     { eapply (xstep_push prog name code a1 g1 i1 _ k1 LIf (set_ops a1 [])); [exact Hip1|exact Hi1|exact Hdec|exact Hx]. }
-    pose proof (in_block_sim body Hbody b1 B lr (k0 + length fc) fuel (S k1) a1' g1t env s1 LIf B1 rb ltac:(lia) Eb Hb) as Hblk.
+    pose proof (in_block_sim body Hbody b1 B lr il sl bt ct (k0 + length fc) fuel (S k1) a1' g1t env s1 LIf B1 rb ltac:(lia) Eb Hb) as Hblk.
     rewrite Ebc in Hblk. cbn [fst snd] in Hblk.
-    specialize (Hblk Hin2 ltac:(atp Hib) ltac:(unfold fin, k1 in *; lia) ltac:(cbn [a1' set_ip a_ip]; lia) Hcb1 eq_refl
+    specialize (Hblk Hin2 ltac:(atpi Hib) ltac:(unfold fin, k1 in *; lia) ltac:(eapply lcok_mono; [exact Hlc|unfold fin, k1; lia|reflexivity])
+                     ltac:(cbn [a1' set_ip a_ip]; lia) Hcb1 eq_refl
                      ltac:(cbn [a1' set_ip set_ops a_ss]; rewrite Hss1; exact Hss) HC1t eq_refl).
-    apply (Hafter body rb _ _ Rp (S k1 + length cb0 + 1)); [intros k Hk0; apply in_or_app; now left| |reflexivity|repeat split|reflexivity|exact Hblk].
+    apply (spost_of_bpost b B rb (rb ++ re) sl bt ct (S k1 + length cb0 + 1) fin env s a g b1 s1 a1 g1 g1t _ _ _
+             ltac:(intros k Hk0; apply in_or_app; now left) SM1 Rp eq_refl eq_refl ltac:(repeat split) eq_refl); [|exact Hblk].
     intros a2 g2 Hip2 Hops2.
     set (ij := mkI OP_JMP [sN offj]) in *.
     exists (set_ip a2 (kj + offj)), (trc name a2 g2 ij).
@@ -1763,70 +2062,39 @@ Proof.
     assert (Rp : xrun prog name code a1 g1 (set_ss a2' (S (a_ss a2'))) (push_frame g2t LElse)).
     { eapply xrun_trans; [exact Rg|].
       eapply (xstep_push prog name code a2 g1t ie _ ke LElse a2); [reflexivity|atp Hi3|apply dec_else|apply exec_else]. }
-    pose proof (in_block_sim els Hels b1 B lr (k0 + length fc + length fb) fuel (S ke) a2' g2t env s1 LElse B2 re ltac:(lia) Ee Hb) as Hblk.
+    pose proof (in_block_sim els Hels b1 B lr il sl bt ct (k0 + length fc + length fb) fuel (S ke) a2' g2t env s1 LElse B2 re ltac:(lia) Ee Hb) as Hblk.
     rewrite Ebe in Hblk. cbn [fst snd] in Hblk.
-    specialize (Hblk Hin3 ltac:(atp Hie) ltac:(unfold fin, ke, kj, k1 in *; lia) eq_refl Hcb1 eq_refl
+    specialize (Hblk Hin3 ltac:(atpi Hie) ltac:(unfold fin, ke, kj, k1 in *; lia) ltac:(eapply lcok_mono; [exact Hlc|unfold fin, ke, kj, k1; lia|reflexivity])
+                     eq_refl Hcb1 eq_refl
                      ltac:(cbn [a2' a2 set_ip set_ops a_ss]; rewrite Hss1; exact Hss) ltac:(apply Cl_trc; exact HC1t) eq_refl).
-    apply (Hafter els re _ _ Rp (S ke + length ce0 + 1)); [intros k Hk0; apply in_or_app; now right| |reflexivity|repeat split|reflexivity|].
-    + intros a3 g3 Hip3 Hops3. exists a3, g3. split; [apply xrun_refl|]. split; [rewrite Hip3; lia|]. split; [exact Hops3|]. repeat split.
-    + exact Hblk.
+    rewrite <- Hfin in Hblk.
+    exact (spost_of_bpost b B re (rb ++ re) sl bt ct _ _ env s a g b1 s1 a1 g1 g2t _ _ _
+             ltac:(intros k Hk0; apply in_or_app; now right) SM1 Rp eq_refl eq_refl ltac:(repeat split) eq_refl (no_tail _) Hblk).
 Qed.
 
-(* ---------------------------------------------------------------- loop bodies: the state at the end of the body, still
-   inside its frame (the loop's back edge pops it) *)
-Lemma Cl_pop_block : forall b2 B B' rets body env env2 s2 g2,
-  ClA b2 B' env2 s2 g2 -> tl (locals env2) = locals env -> locals env <> [] -> locals env2 <> [] ->
-  kblock SF B CD body = Some (B', rets) -> bound2 B env ->
-  ClA b2 B (pop_scope env2) s2 (with_frames g2 (tl (frames g2))).
+(* ---------------------------------------------------------------- else if = else { the next statement } *)
+Lemma sc_elif_else : forall c lr sl k cnd body nxt,
+  sc path c lr sl k (SIfElif cnd body nxt) = sc path c lr sl k (SIfElse cnd body [nxt]).
 Proof.
-  intros b2 B B' rets body env env2 s2 g2 HC2 Htl Hne Hne2 Hk Hb.
-  destruct (locals env2) as [|sc2 l2] eqn:El2; [congruence|]. cbn [tl] in Htl. subst l2.
-  destruct (frames g2) as [|f2 fs2] eqn:Ef2; [exact (False_ind _ (proj2 (Rfr2_ne _ _ _ (cl_fr _ _ _ _ _ _ _ _ _ _ _ _ HC2)) Ef2))|].
-  cbn [tl]. apply (Cl_pop path prog cb CD base name SF b2 B' B env2 s2 g2 sc2 (locals env) f2 fs2 HC2 El2 Hne Ef2).
-  intros x k Hx. split; [eapply kblock_ext; eassumption|]. apply (proj1 Hb). eapply assoc_in_keys; exact Hx.
+  intros. rewrite sc_SIfElif, sc_SIfElse. destruct (ec path c lr k cnd) as [cc fc].
+  destruct (bc path c lr (option_map S sl) (k + length fc) body) as [cb0 fb]. cbn [bc].
+  destruct (sc path c lr (option_map S sl) (k + length fc + length fb) nxt) as [ce0 fe]. now rewrite !app_nil_r.
 Qed.
-
-Definition bodypost (b : cinj) (B' : kctx) (rets : list kind) (fin : nat) (env : fenv) (s : rstate) (g0 : gstate) (ap : act) (gp : gstate)
-           (r : sres_) : Prop :=
-  match r with
-  | SOk sig env2 s2 =>
-    tl (locals env2) = locals env /\ locals env2 <> [] /\
-    match sig with
-    | SigNormal =>
-        exists a2 g2 b2, xrun prog name code ap gp a2 g2 /\ bext b b2 s gp /\ tl (frames g2) = frames g0 /\ act_same ap a2 /\
-          a_ss ap <= a_ss a2 /\ keep b gp g2 /\ lens s s2 gp g2 /\ a_ip a2 = fin /\ a_ops a2 = [] /\ ClA b2 B' env2 s2 g2
-    | SigReturn (Some v) => exists a' g' b' w k,
-        xrun prog name code ap gp a' g' /\ nth_error code (a_ip a') = Some (mkI OP_RET []) /\ a_ops a' = [w] /\
-        bext b b' s gp /\ heap_ok b' s2 g' /\ vrel b' k v w /\ In k rets /\ out g' = rout s2 /\
-        drop_to_function (frames g') = base /\ keep b gp g' /\ lens s s2 gp g'
-    | _ => False
-    end
-  | SFailed f s' => fail_post f (exists e g', xfail prog name code ap gp e g' /\ err_rel_s f e /\ out g' = rout s')
-  | SFuel => True
-  end.
-
-Lemma body_sim : forall body, bspec body -> forall b B lr k0 fuel kb a g env s lb B' rets,
-  fuel <= FU -> kblock SF B CD body = Some (B', rets) -> bound2 B env -> installed (snd (bc path c0 lr k0 body)) ->
-  code_at code kb (fst (bc path c0 lr k0 body)) -> kb + length (fst (bc path c0 lr k0 body)) < length code ->
-  a_ip a = kb -> a_cb a = cb -> a_ops a = [] -> length (locals env) <= S (a_ss a) -> ClA b B env s g -> special lb = true ->
-  bodypost b B' rets (kb + length (fst (bc path c0 lr k0 body))) env s g (set_ss a (S (a_ss a))) (push_frame g lb)
-           (exec_block fuel (push_scope env) body s).
+Lemma ifelif_sim : forall cnd body nxt, bspec body -> sspec nxt -> sspec (SIfElif cnd body nxt).
 Proof.
-  intros body Hbody b B lr k0 fuel kb a g env s lb B' rets Hfu Hk Hb Hinst Hc Hend Hip Hcb Hops Hss HC Hlb.
-  set (ap := set_ss a (S (a_ss a))). set (gp := push_frame g lb).
-  assert (HC0 : ClA b B (push_scope env) s gp) by (apply Cl_push; assumption).
-  assert (Hb0 : bound2 B (push_scope env)) by (destruct Hb as [X1 X2]; split; [intros x; cbn [push_scope locals lookup_scopes assoc]; apply X1|exact X2]).
-  pose proof (Hbody b B lr k0 fuel kb ap gp (push_scope env) s B' rets Hfu Hk Hb0 Hinst Hc ltac:(left; lia)
-                Hip Hcb Hops ltac:(cbn [push_scope locals length ap set_ss a_ss]; lia) HC0) as H.
-  destruct (exec_block fuel (push_scope env) body s) as [sig env2 s2|f s2|]; [|exact H|exact Logic.I].
-  cbn [spost bodypost] in H |- *. destruct H as [[Htl Hne2] H]. cbn [push_scope locals tl] in Htl.
-  split; [exact Htl|]. split; [exact Hne2|].
-  destruct sig as [| | |[v|]]; try contradiction; [|exact H].
-  destruct H as (_ & a2 & g2 & b2 & SM2 & Hip2 & Hops2 & HC2).
-  unfold smid in SM2. destruct SM2 as (R2 & E2 & T2 & A2 & S2 & K2 & L2).
-  exists a2, g2, b2. auto 12.
+  intros cnd body nxt Hbody Hn.
+  assert (Hels : bspec [nxt]) by (apply bspec_of; constructor; [exact Hn|constructor]).
+  pose proof (ifelse_sim cnd body [nxt] Hbody Hels) as H.
+  intros b B lr il sl bt ct k0 fuel kp a g env s B' rets Hfu Hk Hb Hinst Hc Hend Hlc Hip Hcb Hops Hss HC.
+  assert (Ee : Eval.exec fuel env (SIfElif cnd body nxt) s = Eval.exec fuel env (SIfElse cnd body [nxt]) s).
+  { destruct fuel; [reflexivity|]. rewrite exec_SIfElif, exec_SIfElse. reflexivity. }
+  rewrite Ee. rewrite sc_elif_else in *. apply (H b B lr il sl bt ct k0 fuel kp a g env s B' rets Hfu); try assumption.
+  rewrite kstmt_SIfElif in Hk. rewrite kstmt_SIfElse. destruct (is_KD (kexpr SF B CD cnd)); [|discriminate].
+  destruct (kblock SF il B CD body) as [[B1 r1]|]; [|discriminate]. cbn [kblock].
+  destruct (kstmt SF il B CD nxt) as [[B2 r2]|]; [|discriminate]. now rewrite app_nil_r.
 Qed.
 
+(* ---------------------------------------------------------------- loops *)
 Lemma exec_while_nb : forall off a g v, a_ops a = [v] -> (forall b, v <> VBool b) -> exec_d (DWhile off) a g = SFail E_not_bool.
 Proof. intros off a g v H Hn. unfold exec_d. rewrite H. destruct v; try reflexivity. destruct (Hn b eq_refl). Qed.
 
@@ -1843,27 +2111,45 @@ Proof.
   - cbn [pop_frames]. unfold pop_frame. cbn [trc add_trace frames]. destruct (frames g2); [congruence|reflexivity].
 Qed.
 
+(* the end of a loop body (normal end or `continue`, still inside the body's frame): pop it; the loop's context again *)
+Lemma Cl_body_end : forall b2 B env env2 s2 g2, ClA b2 [] env2 s2 g2 -> tl (locals env2) = locals env -> locals env <> [] -> locals env2 <> [] ->
+  bound2 B env -> (forall x k, assoc x B = Some k -> uname0 x /\ exists c c', lookup_scopes x (locals env) = Some c /\ b2 c c' k) ->
+  ClA b2 B env2 s2 g2 /\ ClA b2 B (pop_scope env2) s2 (with_frames g2 (tl (frames g2))).
+Proof.
+  intros b2 B env env2 s2 g2 HC2 Htl Hne Hne2 Hb HB.
+  assert (HCB : ClA b2 B env2 s2 g2) by (eapply Cl_B_lift; [exact HC2|exact Htl|exact Hne2|exact HB]).
+  split; [exact HCB|].
+  destruct (locals env2) as [|sc2 l2] eqn:El2; [congruence|]. cbn [tl] in Htl. subst l2.
+  destruct (frames g2) as [|f2 fs2] eqn:Ef2; [exact (False_ind _ (proj2 (Rfr2_ne _ _ _ (cl_fr _ _ _ _ _ _ _ _ _ _ _ _ HC2)) Ef2))|].
+  cbn [tl]. apply (Cl_pop path prog cb CD base name SF b2 B B env2 s2 g2 sc2 (locals env) f2 fs2 HCB El2 Hne Ef2).
+  intros x k Hx. split; [exact Hx|]. apply (proj1 Hb). eapply assoc_in_keys; exact Hx.
+Qed.
+
 (* ---------------------------------------------------------------- while *)
 Lemma while_sim : forall cnd body, bspec body -> sspec (SWhile cnd body).
 Proof.
-  intros cnd body Hbody b B lr k0 fuel kp a g env s B' rets Hfu Hk Hb Hinst Hc Hend Hip Hcb Hops Hss HC.
+  intros cnd body Hbody b B lr il sl bt ct k0 fuel kp a g env s B' rets Hfu Hk Hb Hinst Hc Hend Hlc Hip Hcb Hops Hss HC.
   destruct Hend as [Hend|[Hend _]]; [|discriminate Hend].
   rewrite kstmt_SWhile in Hk. destruct (kexpr SF B CD cnd) as [[|? ?|]|] eqn:Ec; try discriminate. cbn [is_KD] in Hk.
-  destruct (kblock SF B CD body) as [[B1 rb]|] eqn:Eb; [|discriminate]. inversion Hk; subst B' rets.
+  destruct (kblock SF true B CD body) as [[B1 rb]|] eqn:Eb; [|discriminate]. inversion Hk; subst B' rets.
   rewrite sc_SWhile in *. destruct (ec path c0 lr k0 cnd) as [cc fc] eqn:Eec.
-  destruct (bc path c0 lr (k0 + length fc) body) as [cb0 fb] eqn:Ebc. cbn [fst snd] in *. cbv zeta in *.
-  rewrite !app_length in *. cbn [length] in *.
+  destruct (bc path c0 lr (Some 1) (k0 + length fc) body) as [cb0 fb] eqn:Ebc. cbn [fst snd] in *. cbv zeta in *.
+  rewrite !app_length, resolve_length, !app_length, map_length in *. cbn [length] in *.
   apply (installed_app prog) in Hinst as [Hin1 Hin2].
-  apply code_at_app in Hc as [Hce Hi]. apply code_at_cons in Hi as [Hi1 Hib].
-  apply code_at_app in Hib as [Hib Hj]. apply code_at_cons in Hj as [Hj _].
-  set (kw := kp + length cc) in *. set (kb := S kw) in *. set (kj := kb + length cb0). set (fin := S kj).
+  apply items_at_app in Hc as [Hce Hi]. apply items_at_CI in Hce. rewrite map_length in Hi.
+  apply items_at_cons in Hi as [Hi1 Hi]. cbn [item_instr I] in Hi1.
+  apply items_at_resolve in Hi. apply items_at_app in Hi as [Hib Hj].
+  apply items_at_cons in Hj as [Hj _]. cbn [item_instr I] in Hj.
+  set (kw := kp + length cc) in *. set (kb := S kw) in *. set (kj := kb + length cb0) in *. set (fin := S kj).
   assert (Efin : kp + (length cc + (1 + (length cb0 + 1))) = fin) by (unfold fin, kj, kb, kw; lia). rewrite Efin in *.
+  replace (kb + (length cb0 + 1)) with fin in Hib by (unfold fin, kj; lia).
+  replace (fin - 1) with kj in Hib by (unfold fin; lia).
   set (off := length cb0 + 1 + 1) in *.
   set (i1 := mkI OP_WHILE_LOOP [sN off]) in *.
   assert (Hdec : decode i1 = DOk (DWhile (Z.of_nat off))) by (apply dec_while; eapply small_le; [|exact Hsmall]; unfold off, fin, kj, kb, kw in *; lia).
-  assert (Hj' : nth_error code kj = Some (mkI OP_JMP_POP [neg_off (1 + length cb0 + length cc)])) by (atp Hj).
-  revert Hfu b s a g env Hb Hip Hcb Hops Hss HC.
-  induction fuel as [|n IH]; intros Hfu b s a g env Hb Hip Hcb Hops Hss HC; [exact Logic.I|].
+  assert (Hj' : nth_error code kj = Some (mkI OP_JMP_POP [neg_off (1 + length cb0 + length cc)])) by (exact Hj).
+  revert Hfu b s a g env Hb Hlc Hip Hcb Hops Hss HC.
+  induction fuel as [|n IH]; intros Hfu b s a g env Hb Hlc Hip Hcb Hops Hss HC; [exact Logic.I|].
   rewrite exec_SWhile.
   pose proof (espec_all cnd b B c0 lr k0 n kp a g env s KD ltac:(lia) Ec Hb) as He. rewrite Eec in He. cbn [fst snd] in He.
   specialize (He Hin1 ltac:(unfold fin, kj, kb, kw in *; lia) Hce ltac:(unfold fin, kj, kb, kw in *; lia) Hip Hcb Hops HC). fold kw in He.
@@ -1874,8 +2160,8 @@ Proof.
   pose proof (Cl_trc b1 B env s1 g1 name a1 i1 HC1) as HC1t. fold g1t in HC1t.
   assert (Hcb1 : a_cb a1 = cb) by (unfold smid in SM1; destruct SM1 as (_ & _ & _ & (_ & _ & A) & _); congruence).
   assert (Hss1 : a_ss a1 = a_ss a) by (unfold mid, rest in M1; destruct M1 as (_ & _ & _ & _ & S1 & _); exact S1).
-  assert (Hnb : (forall b0, v <> RBool b0) -> spost b B rb fin env s a g (SFailed (FType 12) s1)).
-  { intros Hv. apply (spost_fail_e b B rb _ env s a g (FType 12) s1 E_not_bool g1t); [|cbn; auto|exact (cl_out _ _ _ _ _ _ _ _ _ _ _ _ HC1)].
+  assert (Hnb : (forall b0, v <> RBool b0) -> spost b B rb sl bt ct fin env s a g (SFailed (FType 12) s1)).
+  { intros Hv. apply (spost_fail_e b B rb sl bt ct _ env s a g (FType 12) s1 E_not_bool g1t); [|cbn; auto|exact (cl_out _ _ _ _ _ _ _ _ _ _ _ _ HC1)].
     eapply smid_fail; [exact SM1|]. eapply xstep_fail; [exact Hip1|exact Hi1|exact Hdec|].
     apply (exec_while_nb _ a1 g1t (inj v)); [exact Hops1|now apply not_bool_inj]. }
   destruct v as [z|bv|t| |p bd ev]; try (apply Hnb; intros b0; discriminate).
@@ -1888,53 +2174,98 @@ Proof.
     eapply smid_trans; [exact SM1|]. apply smid_same; try reflexivity; [|repeat split].
     eapply (xstep_goto prog name code a1 g1 i1 _ kw _ (set_ops a1 [])); [exact Hip1|exact Hi1|exact Hdec|exact Hx|].
     apply goto_fwd. cbn [set_ops a_ip]. rewrite Hip1. unfold off, fin, kj, kb in *. lia. }
-  (* true: push <while>, run the body, jump back *)
+  (* true: push <while>, run the body *)
   set (a1' := set_ip (set_ops a1 []) (S (a_ip a1))).
-  assert (Rp : xrun prog name code a1 g1 (set_ss a1' (S (a_ss a1'))) (push_frame g1t LWhile)).
+  set (ap := set_ss a1' (S (a_ss a1'))). set (gp := push_frame g1t LWhile).
+  assert (Rp : xrun prog name code a1 g1 ap gp).
   { eapply (xstep_push prog name code a1 g1 i1 _ kw LWhile (set_ops a1 [])); [exact Hip1|exact Hi1|exact Hdec|exact Hx]. }
-  pose proof (body_sim body Hbody b1 B lr (k0 + length fc) n kb a1' g1t env s1 LWhile B1 rb ltac:(lia) Eb Hb) as Hbd.
+  pose proof (Cl_ne _ _ _ _ _ _ _ _ _ _ _ _ HC) as Hne.
+  assert (Hl1 : 1 <= length (locals env)) by (destruct (locals env); [congruence|cbn [length]; lia]).
+  assert (HC0 : ClA b1 B (push_scope env) s1 gp) by (apply Cl_push; [exact HC1t|reflexivity]).
+  assert (Hb0 : bound2 B (push_scope env)) by (destruct Hb as [X1 X2]; split; [intros x; cbn [push_scope locals lookup_scopes assoc]; apply X1|exact X2]).
+  pose proof (Hbody b1 B lr true (Some 1) fin kj (k0 + length fc) n kb ap gp (push_scope env) s1 B1 rb ltac:(lia) Eb Hb0) as Hbd.
   rewrite Ebc in Hbd. cbn [fst snd] in Hbd.
-  specialize (Hbd Hin2 Hib ltac:(unfold fin, kj in *; lia) ltac:(cbn [a1' set_ip a_ip]; unfold kb; lia) Hcb1 eq_refl
-                  ltac:(cbn [a1' set_ip set_ops a_ss]; rewrite Hss1; exact Hss) HC1t eq_refl).
+  specialize (Hbd Hin2 Hib ltac:(left; unfold fin, kj in *; lia)
+                  ltac:(split; [discriminate|intros m Hm; inversion Hm; subst m; cbn [push_scope locals length]; unfold fin, kj in *; repeat split; lia])
+                  ltac:(cbn [ap a1' set_ss set_ip a_ip]; unfold kb; lia) Hcb1 eq_refl
+                  ltac:(cbn [push_scope locals length ap a1' set_ss set_ip set_ops a_ss]; rewrite Hss1; lia) HC0).
   fold kj in Hbd. unfold in_block_.
-  set (ap := set_ss a1' (S (a_ss a1'))) in *. set (gp := push_frame g1t LWhile) in *.
-  destruct (exec_block n (push_scope env) body s1) as [sig env2 s2|f s2|]; cbn [bodypost spost] in Hbd |- *; [| |exact Logic.I].
-  2:{ eapply fail_post_map; [|exact Hbd]. intros (e0 & g' & Hf & Hr). exists e0, g'.
-      split; [eapply smid_fail; [exact SM1|]; eapply xrun_fail; [exact Rp|exact Hf]|exact Hr]. }
-  destruct Hbd as (Htl2 & Hne2 & H).
-  assert (Hd2 : same_tl env (pop_scope env2)).
-  { split; cbn [pop_scope locals]; rewrite Htl2; [reflexivity|exact (Cl_ne _ _ _ _ _ _ _ _ _ _ _ _ HC)]. }
-  destruct sig as [| | |[v|]]; try contradiction.
-  - destruct H as (a2 & g2 & b2 & R2 & E2 & T2 & A2 & S2 & K2 & L2 & Hip2 & Hops2 & HC2).
+  assert (Hnames : forall b2, cinj_le b1 b2 -> forall x k, assoc x B = Some k -> uname0 x /\ exists c c', lookup_scopes x (locals env) = Some c /\ b2 c c' k)
+    by (intros b2 Hle; exact (Cl_names b1 b2 B env s1 g1t HC1t Hle)).
+  assert (Hjm : forall b2 s2 a2 g2, jmid b1 s1 ap gp b2 s2 a2 g2 -> jmid b s a g b2 s2 a2 g2 /\ a_cb a2 = cb /\ a_ss a <= a_ss a2 /\ cinj_le b1 b2).
+  { intros b2 s2 a2 g2 J. assert (J1 : jmid b1 s1 a1 g1 b1 s1 ap gp).
+    { unfold jmid. split; [exact Rp|]. split; [apply bext_refl|]. split; [repeat split|]. split; [cbn [ap a1' set_ss set_ip set_ops a_ss]; lia|].
+      split; [apply (keep_cells_app _ _ _ []); now rewrite app_nil_r|]. split; [lia|cbn; lia]. }
+    pose proof (jmid_trans _ _ _ _ _ _ _ _ _ _ _ _ J1 J) as J2. pose proof (jmid_trans _ _ _ _ _ _ _ _ _ _ _ _ (jmid_of_smid _ _ _ _ _ _ _ _ SM1) J2) as J3.
+    split; [exact J3|]. unfold jmid in J3, J. destruct J3 as (_ & _ & (_ & _ & A3) & S3 & _). split; [congruence|]. split; [exact S3|].
+    exact (proj1 (proj1 (proj2 J))). }
+  (* the end of the body: the back edge, the next iteration *)
+  assert (Hnext : forall b2 s2 a2 g2 env2, jmid b1 s1 ap gp b2 s2 a2 g2 -> a_ip a2 = kj -> a_ops a2 = [] -> ClA b2 [] env2 s2 g2 ->
+            tl (frames g2) = frames g1t -> tl (locals env2) = locals env -> locals env2 <> [] ->
+            spost b B rb sl bt ct fin env s a g (Eval.exec n (pop_scope env2) (SWhile cnd body) s2)).
+  { intros b2 s2 a2 g2 env2 J Hip2 Hops2 HC2 T2 Htl2 Hne2.
+    destruct (Hjm _ _ _ _ J) as (J3 & Hcb2 & Hss2 & Hle2).
     set (ij := mkI OP_JMP_POP [neg_off (1 + length cb0 + length cc)]) in *.
     set (g3 := with_frames (trc name a2 g2 ij) (tl (frames g2))).
     assert (R3 : xrun prog name code a2 g2 (set_ip a2 kp) g3).
     { apply (back_edge2 kj (1 + length cb0 + length cc) kp a2 g2 Hj'); [unfold fin, kj, kb, kw in *; lia|unfold fin in *; lia|
         unfold kj, kb, kw; lia|exact Hip2|exact (proj2 (Rfr2_ne _ _ _ (cl_fr _ _ _ _ _ _ _ _ _ _ _ _ HC2)))]. }
-    assert (HC3 : ClA b2 B (pop_scope env2) s2 g3).
-    { unfold g3. change (tl (frames g2)) with (tl (frames (trc name a2 g2 ij))).
-      eapply (Cl_pop_block b2 B B1 rb body env env2 s2 (trc name a2 g2 ij)); [apply Cl_trc; exact HC2|exact Htl2|
-        exact (Cl_ne _ _ _ _ _ _ _ _ _ _ _ _ HC)|exact Hne2|exact Eb|exact Hb]. }
+    destruct (Cl_body_end b2 B env env2 s2 (trc name a2 g2 ij) (Cl_trc _ _ _ _ _ _ _ _ HC2) Htl2 Hne Hne2 Hb (Hnames b2 Hle2)) as [_ HC3].
+    change (with_frames (trc name a2 g2 ij) (tl (frames (trc name a2 g2 ij)))) with g3 in HC3.
     assert (SM3 : smid b s a g b2 s2 (set_ip a2 kp) g3).
-    { eapply smid_trans; [exact SM1|]. unfold smid.
-      split; [eapply xrun_trans; [exact Rp|]; eapply xrun_trans; [exact R2|exact R3]|]. split; [exact E2|].
-      split; [cbn [g3 with_frames frames]; rewrite T2; reflexivity|]. split; [destruct A2 as (X1 & X2 & X3); repeat split; assumption|].
-      split; [cbn [set_ip a_ss]; cbn [ap a1' set_ss set_ip set_ops a_ss] in S2; lia|]. split; [exact K2|exact L2]. }
+    { unfold jmid in J3. destruct J3 as (R0 & E0 & A0 & S0 & K0 & L0). unfold smid.
+      split; [eapply xrun_trans; [exact R0|exact R3]|]. split; [exact E0|].
+      split; [cbn [g3 with_frames frames]; rewrite T2; unfold smid in SM1; exact (proj1 (proj2 (proj2 SM1)))|].
+      split; [destruct A0 as (X1 & X2 & X3); repeat split; assumption|]. split; [cbn [set_ip a_ss]; exact S0|]. split; [exact K0|exact L0]. }
+    assert (Hd2 : same_tl env (pop_scope env2)) by (split; cbn [pop_scope locals]; rewrite Htl2; [reflexivity|exact Hne]).
     assert (Hb3 : bound2 B (pop_scope env2)) by (eapply bound2_eq; [exact Hb|cbn [pop_scope locals]; exact Htl2]).
     eapply spost_seq; [exact SM3|exact Hd2|].
-    apply IH; [lia|exact Hb3|reflexivity| |exact Hops2| |exact HC3].
-    + cbn [set_ip a_cb]. destruct A2 as (_ & _ & X3). cbn [ap a1' set_ss set_ip set_ops a_cb] in X3. congruence.
-    + cbn [set_ip a_ss pop_scope locals]. rewrite Htl2. cbn [ap a1' set_ss set_ip set_ops a_ss] in S2. lia.
-  - destruct H as (a2 & g2 & b2 & w & k & R2 & Hi2 & Hops2 & E2 & Hh2 & Hv2 & Hk2 & Ho2 & Hdr2 & K2 & L2).
+    apply IH; [lia|exact Hb3| |reflexivity|exact Hcb2|exact Hops2| |exact HC3].
+    - eapply lcok_mono; [exact Hlc|lia|cbn [pop_scope locals]; now rewrite Htl2].
+    - cbn [set_ip a_ss pop_scope locals]. rewrite Htl2. lia. }
+  destruct (exec_block n (push_scope env) body s1) as [sig env2 s2|f s2|]; cbn [spost] in Hbd |- *; [| |exact Logic.I].
+  2:{ eapply fail_post_map; [|exact Hbd]. intros (e0 & g' & Hf & Hr). exists e0, g'.
+      split; [eapply smid_fail; [exact SM1|]; eapply xrun_fail; [exact Rp|exact Hf]|exact Hr]. }
+  destruct Hbd as ([Htl2 Hne2] & H). cbn [push_scope locals tl] in Htl2.
+  assert (Hd2 : same_tl env (pop_scope env2)) by (split; cbn [pop_scope locals]; rewrite Htl2; [reflexivity|exact Hne]).
+  destruct sig as [| | |[v|]].
+  - (* the body ends normally *)
+    destruct H as (_ & a2 & g2 & b2 & SM2 & Hip2 & Hops2 & HC2).
+    apply (Hnext b2 s2 a2 g2 env2 (jmid_of_smid _ _ _ _ _ _ _ _ SM2) Hip2 Hops2 (Cl_weaken _ _ _ _ _ _ _ _ _ _ _ _ HC2)); [|exact Htl2|exact Hne2].
+    unfold smid in SM2. exact (proj1 (proj2 (proj2 SM2))).
+  - (* break: the loop is left *)
+    destruct H as (m & a2 & g2 & b2 & Hsl & _ & J & Hip2 & Hops2 & HC2 & Hf2). inversion Hsl; subst m.
+    destruct (Hjm _ _ _ _ J) as (J3 & Hcb2 & Hss2 & Hle2).
+    rewrite popn_1 in HC2. cbn [gp push_frame with_frames frames skipn] in Hf2.
+    split; [exact Hd2|]. split; [eapply bound2_eq; [exact Hb|cbn [pop_scope locals]; exact Htl2]|].
+    exists a2, g2, b2. split; [|split; [exact Hip2|split; [exact Hops2|]]].
+    + unfold jmid in J3. destruct J3 as (R0 & E0 & A0 & S0 & K0 & L0). unfold smid.
+      split; [exact R0|]. split; [exact E0|]. split; [rewrite Hf2; unfold smid in SM1; exact (proj1 (proj2 (proj2 SM1)))|]. auto.
+    + apply (Cl_B_of path prog cb CD base name SF b2 B (pop_scope env2) s2 g2 HC2). intros x k E.
+      destruct (Hnames b2 Hle2 x k E) as (Hux & c & c' & A1 & A2). split; [exact Hux|]. exists c, c'. split; [|exact A2].
+      cbn [pop_scope locals]. rewrite Htl2. exact A1.
+  - (* continue *)
+    destruct H as (m & a2 & g2 & b2 & Hsl & _ & J & Hip2 & Hops2 & HC2 & Hf2). inversion Hsl; subst m.
+    cbn [Nat.sub] in HC2. rewrite popn_0 in HC2. cbn [gp push_frame with_frames frames skipn] in Hf2.
+    exact (Hnext b2 s2 a2 g2 env2 J Hip2 Hops2 HC2 Hf2 Htl2 Hne2).
+  - (* return v *)
+    destruct H as (a2 & g2 & b2 & w & k & R2 & Hi2 & Hops2 & E2 & Hh2 & Hv2 & Hk2 & Ho2 & Hdr2 & K2 & L2).
     split; [exact Hd2|].
     unfold smid in SM1. destruct SM1 as (R1 & E1 & T1 & A1 & S1 & K1 & L1).
     exists a2, g2, b2, w, k. split; [eapply xrun_trans; [exact R1|]; eapply xrun_trans; [exact Rp|exact R2]|].
     split; [exact Hi2|]. split; [exact Hops2|].
     split; [eapply bext_trans; [exact E1|exact E2|exact (proj1 L1)|exact (proj2 L1)]|]. split; [exact Hh2|]. split; [exact Hv2|].
     split; [exact Hk2|]. split; [exact Ho2|]. split; [exact Hdr2|]. split; [eapply keep_trans; [exact K1|exact E1|exact K2]|eapply lens_trans; [exact L1|exact L2]].
+  - (* return *)
+    destruct H as (a2 & g2 & b2 & R2 & Hi2 & Hops2 & E2 & Hh2 & Hk2 & Ho2 & Hdr2 & K2 & L2).
+    split; [exact Hd2|].
+    unfold smid in SM1. destruct SM1 as (R1 & E1 & T1 & A1 & S1 & K1 & L1).
+    exists a2, g2, b2. split; [eapply xrun_trans; [exact R1|]; eapply xrun_trans; [exact Rp|exact R2]|].
+    split; [exact Hi2|]. split; [exact Hops2|].
+    split; [eapply bext_trans; [exact E1|exact E2|exact (proj1 L1)|exact (proj2 L1)]|]. split; [exact Hh2|].
+    split; [exact Hk2|]. split; [exact Ho2|]. split; [exact Hdr2|]. split; [eapply keep_trans; [exact K1|exact E1|exact K2]|eapply lens_trans; [exact L1|exact L2]].
 Qed.
 
-(* ---------------------------------------------------------------- from a to b, x { body }  (a fresh counter, step 1) *)
 Lemma kvar_cons_other : forall B x y, y <> x -> kvar ((x, KD) :: B) CD y = kvar B CD y.
 Proof. intros B x y Hne. unfold kvar. cbn [assoc]. rewrite str_eqb_neq by congruence. reflexivity. Qed.
 Lemma ok_dexpr_weaken : forall B x e, ok_dexpr B CD e = true -> ~ In x (used_e e) -> ok_dexpr ((x, KD) :: B) CD e = true.
@@ -1976,41 +2307,46 @@ Qed.
 
 Lemma from_sim : forall a0 b0 incl x body, bspec body -> sspec (SFrom a0 b0 incl None (Some x) false body).
 Proof.
-  intros ea eb incl x body Hbody b B lr k0 fuel kp a g env s B' rets Hfu Hk Hb Hinst Hc Hend Hip Hcb Hops Hss HC.
+  intros ea eb incl x body Hbody b B lr il sl bt ct k0 fuel kp a g env s B' rets Hfu Hk Hb Hinst Hc Hend Hlc Hip Hcb Hops Hss HC.
   destruct Hend as [Hend|[Hend _]]; [|discriminate Hend].
   rewrite kstmt_SFrom in Hk.
   destruct (ok_dexpr B CD ea && ok_dexpr B CD eb && src_nameb x && negb (mem_str x (map fst B)) && negb (mem_str x (used_e eb))) eqn:Hcnd;
     [|discriminate].
   rewrite !andb_true_iff in Hcnd. destruct Hcnd as [[[[Hoa Hob] Hsx] HxB] HxU].
   apply negb_true_iff in HxB. apply negb_true_iff in HxU.
-  destruct (kblock SF ((x, KD) :: B) CD body) as [[B1 rb]|] eqn:Eb; [|discriminate]. inversion Hk; subst B' rets.
+  destruct (kblock SF true ((x, KD) :: B) CD body) as [[B1 rb]|] eqn:Eb; [|discriminate]. inversion Hk; subst B' rets.
   pose proof (src_nameb_ok x Hsx) as Hx.
   assert (HxnB : ~ In x (map fst B)) by (intros Hin; apply In_mem_str in Hin; congruence).
   assert (HxnU : ~ In x (used_e eb)) by (intros Hin; apply In_mem_str in Hin; congruence).
   assert (HxBn : assoc x B = None).
   { destruct (assoc x B) as [k|] eqn:E; [|reflexivity]. exfalso. apply HxnB. eapply assoc_in_keys; exact E. }
   destruct fuel as [|fuel]; [exact Logic.I|]. rewrite exec_SFrom.
-  rewrite sc_SFrom in *. destruct (bc path c0 (S lr) k0 body) as [cbody fb] eqn:Ebc. cbn [fst snd] in *. cbv zeta in *.
+  rewrite sc_SFrom in *. destruct (bc path c0 (S lr) (Some 1) k0 body) as [cbody fb] eqn:Ebc. cbn [fst snd] in *. cbv zeta in *.
   set (endr := lregn (S lr)) in *.
   set (la := length (pcode c0 ea)) in *. set (lb := length (pcode c0 eb)) in *. set (lbd := length cbody) in *.
   match type of Hend with kp + length ?L < _ =>
     assert (Hlen : length L = la + 1 + lb + 1 + 3 + 1 + (lbd + 2 + 1) + 1)
-      by (rewrite !app_length; cbn [length]; fold la lb lbd; lia)
+      by (rewrite !app_length, resolve_length, !app_length, !map_length; cbn [length]; fold la lb lbd; lia)
   end.
   rewrite Hlen in *. clear Hlen.
-  apply code_at_app in Hc as [Hca Hc]. fold la in Hc. apply code_at_cons in Hc as [Hi1 Hc].
-  apply code_at_app in Hc as [Hcb2 Hc]. fold lb in Hc. apply code_at_cons in Hc as [Hi3 Hc].
-  apply code_at_cons in Hc as [Hc1 Hc]. apply code_at_cons in Hc as [Hc2 Hc]. apply code_at_cons in Hc as [Hc3 Hc].
-  apply code_at_cons in Hc as [Hw Hc]. apply code_at_app in Hc as [Hfull Hdel].
-  apply code_at_app in Hfull as [Hfull0 Hj]. apply code_at_app in Hfull0 as [Hib Hstp]. fold lbd in Hstp.
-  apply code_at_cons in Hstp as [Hs1 Hstp]. apply code_at_cons in Hstp as [Hs2 _].
-  apply code_at_cons in Hj as [Hj _]. apply code_at_cons in Hdel as [Hdel _].
-  rewrite ?app_length in Hw. rewrite ?app_length in Hj. rewrite ?app_length in Hdel. cbn [length] in Hw, Hj, Hdel. fold lbd in Hw, Hj, Hdel.
+  apply items_at_app in Hc as [Hca Hc]. apply items_at_CI in Hca. rewrite map_length in Hc. fold la in Hc.
+  apply items_at_cons in Hc as [Hi1 Hc]. cbn [item_instr I] in Hi1.
+  apply items_at_app in Hc as [Hcb2 Hc]. apply items_at_CI in Hcb2. rewrite map_length in Hc. fold lb in Hc.
+  apply items_at_cons in Hc as [Hi3 Hc]. cbn [item_instr I] in Hi3.
+  apply items_at_cons in Hc as [Hc1 Hc]. apply items_at_cons in Hc as [Hc2 Hc]. apply items_at_cons in Hc as [Hc3 Hc].
+  cbn [item_instr I] in Hc1, Hc2, Hc3.
+  apply items_at_cons in Hc as [Hw Hc]. cbn [item_instr I] in Hw. apply items_at_app in Hc as [Hfull Hdel].
+  rewrite resolve_length in Hdel. apply items_at_resolve_gen in Hfull.
+  apply items_at_app in Hfull as [Hfull0 Hj]. apply items_at_app in Hfull0 as [Hib Hstp]. fold lbd in Hstp.
+  apply items_at_cons in Hstp as [Hs1 Hstp]. apply items_at_cons in Hstp as [Hs2 _]. cbn [item_instr I] in Hs1, Hs2.
+  apply items_at_cons in Hj as [Hj _]. apply items_at_cons in Hdel as [Hdel _]. cbn [item_instr I] in Hj, Hdel.
+  rewrite ?app_length in Hw. rewrite ?app_length in Hj. rewrite ?app_length in Hdel. rewrite ?app_length in Hib. cbn [length] in Hw, Hj, Hdel, Hib. fold lbd in Hw, Hj, Hdel, Hib.
   set (k1 := kp + la) in *. set (k3 := S k1 + lb) in *. set (kc := S k3) in *.
   set (kw := S (S (S kc))). set (kb := S kw). set (ks := kb + lbd). set (kpp := S ks). set (kj := S kpp). set (kd := S kj). set (fin := S kd).
   assert (Hw' : nth_error code kw = Some (mkI OP_WHILE_LOOP [sN (lbd + 4)])).
   { replace (lbd + 4) with (lbd + 2 + 1 + 1) by lia. atp Hw. }
-  assert (Hib' : code_at code kb cbody) by (atp Hib).
+  assert (Hib' : items_at code kd ks kb cbody).
+  { replace kd with (kb + (lbd + 2 + 1)) by (unfold kd, kj, kpp, ks; lia). replace ks with (kb + (lbd + 2 + 1) - 2 - 1) by (unfold ks; lia). atpi Hib. }
   assert (Hs1' : nth_error code ks = Some (mkI OP_MAKE_INT [s_one])) by (atp Hs1).
   assert (Hs2' : nth_error code kpp = Some (mkI OP_BIN_OP_ASSIGN [[43%N; 61%N]; x])) by (atp Hs2).
   assert (Hj' : nth_error code kj = Some (mkI OP_JMP_POP [neg_off (lbd + 6)])).
@@ -2156,7 +2492,7 @@ Proof.
   assert (Hloop : forall n aL gL envL sL bL, locals envL = lL -> ClA bL B2 envL sL gL -> frames gL = F2 :: R ->
             a_ip aL = kc -> a_cb aL = cb -> length lL <= S (a_ss aL) -> bL cx c'x KD ->
             cell_get gL ce = Some (VInt hi) -> (forall c k, ~ bL c ce k) ->
-            spost bL B rb fin envL sL aL gL (from_iter fuel incl hi None x false body n envL sL)).
+            spost bL B rb sl bt ct fin envL sL aL gL (from_iter fuel incl hi None x false body n envL sL)).
   { induction n as [|n IH]; intros aL gL envL sL bL ElL HCL EfL HipL HcbL HssL HbxL HceL HcnL; [exact Logic.I|].
     rewrite from_iter_S. rewrite ElL. cbn [lL lookup_scopes]. rewrite assoc_set_same.
     destruct (proj1 (cl_heap _ _ _ _ _ _ _ _ _ _ _ _ HCL) _ _ _ HbxL) as (vx & wx & Esx & Ecx & [Hfox ->]). rewrite Esx.
@@ -2191,26 +2527,40 @@ Proof.
     assert (Rp : xrun prog name code ac gc ap gp).
     { eapply (xstep_push prog name code ac gc i_w _ kw LWhile (set_ops ac [])); [reflexivity|exact Hw'|exact Hdecw|exact Hxw]. }
     assert (HbL : bound2 B2 envL) by (eapply bound2_eq; [exact Hb2|rewrite ElL; reflexivity]).
-    pose proof (body_sim body Hbody bL B2 (S lr) k0 fuel kb a0' gct envL sL LWhile B1 rb ltac:(lia) Eb HbL) as Hbd.
+    assert (HneL : locals envL <> []) by (rewrite ElL; discriminate).
+    assert (HC0 : ClA bL B2 (push_scope envL) sL gp) by (apply Cl_push; [exact HCct|reflexivity]).
+    assert (Hb0 : bound2 B2 (push_scope envL)) by (destruct HbL as [X1 X2]; split; [intros y; cbn [push_scope locals lookup_scopes assoc]; apply X1|exact X2]).
+    pose proof (Hbody bL B2 (S lr) true (Some 1) kd ks k0 fuel kb ap gp (push_scope envL) sL B1 rb ltac:(lia) Eb Hb0) as Hbd.
     rewrite Ebc in Hbd. cbn [fst snd] in Hbd. fold lbd in Hbd.
-    specialize (Hbd Hinst Hib' ltac:(unfold fin, kd, kj, kpp, ks in *; lia) eq_refl ltac:(cbn [a0' ac upd set_ip set_ops a_cb]; exact HcbL) eq_refl
-                    ltac:(cbn [a0' ac upd set_ip set_ops a_ss]; rewrite ElL; exact HssL) HCct eq_refl).
-    fold ks in Hbd. fold ap gp in Hbd. unfold in_block_.
-    destruct (exec_block fuel (push_scope envL) body sL) as [sig env2 s2|f s2|]; cbn [bodypost spost] in Hbd |- *; [| |exact Logic.I].
-    2:{ eapply fail_post_map; [|exact Hbd]. intros (e0 & g' & Hf & Hr). exists e0, g'.
-        split; [eapply smid_fail; [exact SMc|]; eapply xrun_fail; [exact Rp|exact Hf]|exact Hr]. }
-    destruct Hbd as (Htl2 & Hne2 & H). rewrite ElL in Htl2.
-    assert (Epop : locals (pop_scope env2) = lL) by exact Htl2.
-    destruct sig as [| | |[v|]]; try contradiction.
-    - (* after the body: the step, the back edge, the next iteration *)
-      destruct H as (a2' & g2' & bB & RB & EB & TB & AB & SB & KB & LB & HipB & HopsB & HCB).
-      assert (HbxB : bB cx c'x KD) by (exact (proj1 EB _ _ _ HbxL)).
+    specialize (Hbd Hinst Hib' ltac:(left; unfold fin, kd, kj, kpp, ks in *; lia)
+                    ltac:(split; [discriminate|intros m Hm; inversion Hm; subst m; cbn [push_scope locals length]; rewrite ElL; cbn [lL length];
+                                  unfold fin, kd, kj, kpp, ks in *; repeat split; lia])
+                    eq_refl ltac:(cbn [ap a0' ac set_ss upd set_ip set_ops a_cb]; exact HcbL) eq_refl
+                    ltac:(cbn [push_scope locals length ap a0' ac set_ss upd set_ip set_ops a_ss]; rewrite ElL; apply le_n_S; exact HssL) HC0).
+    fold ks in Hbd. unfold in_block_.
+    assert (Ecp : cells gp = cells gL) by (cbn [gp push_frame with_frames cells gct trc add_trace]; exact Ecc).
+    assert (Efct : frames gct = F2 :: R) by (change (frames gct) with (frames gc); now rewrite Efc, EfL).
+    assert (Hnames2 : forall bB, cinj_le bL bB -> forall y k, assoc y B2 = Some k -> uname0 y /\ exists c c', lookup_scopes y (locals envL) = Some c /\ bB c c' k)
+      by (intros bB Hle; exact (Cl_names bL bB B2 envL sL gct HCct Hle)).
+    (* ---- the end of the body (normal, or `continue`): the step, the back edge, the next iteration *)
+    assert (Hstep : forall bB s2 a2' g2' env2, jmid bL sL ap gp bB s2 a2' g2' -> a_ip a2' = ks -> a_ops a2' = [] -> ClA bB [] env2 s2 g2' ->
+              tl (frames g2') = frames gct -> tl (locals env2) = lL -> locals env2 <> [] ->
+              spost bL B rb sl bt ct fin envL sL aL gL
+                (match sget s2 cx, RInt 1 with
+                 | Some (RInt i'), RInt d => if i32_ok (i' + d)%Z then from_iter fuel incl hi None x false body n (pop_scope env2) (sset s2 cx (RInt (i' + d)%Z))
+                                             else SFailed FOverflow s2
+                 | _, _ => SFailed (FType 13) s2 end)).
+    { intros bB s2 a2' g2' env2 J HipB HopsB HC2w TB Htl2 Hne2. unfold jmid in J. destruct J as (RB & EB & AB & SB & KB & LB).
+      assert (Epop : locals (pop_scope env2) = lL) by exact Htl2.
+      assert (HleB : cinj_le bL bB) by exact (proj1 EB).
+      destruct (Cl_body_end bB B2 envL env2 s2 g2' HC2w ltac:(rewrite ElL; exact Htl2) HneL Hne2 HbL (Hnames2 bB HleB)) as [HCB _].
+      assert (HbxB : bB cx c'x KD) by (exact (HleB _ _ _ HbxL)).
       assert (Hlx2 : lookup_scopes x (locals env2) = Some cx).
       { destruct (locals env2) as [|sc2 l2] eqn:E2l; [congruence|]. cbn [tl] in Htl2. subst l2.
         apply NS_lookup_tl; [rewrite <- E2l; exact (cl_ns _ _ _ _ _ _ _ _ _ _ _ _ HCB)|exact (proj2 (proj2 Hx))|].
         cbn [lL lookup_scopes]. now rewrite assoc_set_same. }
       assert (Fx2 : find_in_function x (frames g2') = Some c'x).
-      { destruct (cl_B _ _ _ _ _ _ _ _ _ _ _ _ HCB x KD ltac:(eapply kblock_ext; [exact Eb|cbn [B2 assoc]; now rewrite str_eqb_refl]))
+      { destruct (cl_B _ _ _ _ _ _ _ _ _ _ _ _ HCB x KD ltac:(cbn [B2 assoc]; now rewrite str_eqb_refl))
           as (_ & c2 & c2' & A1 & A2 & A3). rewrite Hlx2 in A1. inversion A1; subst c2.
         destruct (proj2 (cl_heap _ _ _ _ _ _ _ _ _ _ _ _ HCB) _ _ _ _ _ _ A3 HbxB) as [Hiff _]. assert (c2' = c'x) by (apply Hiff; reflexivity). congruence. }
       destruct (proj1 (cl_heap _ _ _ _ _ _ _ _ _ _ _ _ HCB) _ _ _ HbxB) as (vx2 & wx2 & Esx2 & Ecx2 & [Hfox2 ->]). rewrite Esx2.
@@ -2243,8 +2593,8 @@ Proof.
       set (gS := cell_set gMt c'x (VInt (i' + 1)%Z)).
       assert (RS : xrun prog name code aM gM aS gS).
       { eapply (xstep_next prog name code aM gM i_a _ (a_ip aM) (set_ops aM [VInt (i' + 1)%Z])); [reflexivity|rewrite HipM; exact Hs2'|apply dec_bin_op_assign|exact Hxa]. }
-      assert (HCS : ClA bB B1 env2 sS gS).
-      { apply (Cl_update path prog cb CD base name SF bB B1 env2 s2 gMt cx c'x KD (RInt (i' + 1)%Z) (VInt (i' + 1)%Z)); [do 2 apply Cl_trc; exact HCB|exact HbxB|].
+      assert (HCS : ClA bB B2 env2 sS gS).
+      { apply (Cl_update path prog cb CD base name SF bB B2 env2 s2 gMt cx c'x KD (RInt (i' + 1)%Z) (VInt (i' + 1)%Z)); [do 2 apply Cl_trc; exact HCB|exact HbxB|].
         split; [exact Logic.I|reflexivity]. }
       set (ij := mkI OP_JMP_POP [neg_off (lbd + 6)]) in *.
       set (gN := with_frames (trc name aS gS ij) (tl (frames gS))).
@@ -2252,12 +2602,10 @@ Proof.
       { apply (back_edge2 kj (lbd + 6) kc aS gS Hj'); [unfold fin, kd, kj, kpp, ks, kb, kw in *; lia|unfold fin, kd in *; lia|
           unfold kj, kpp, ks, kb, kw; lia|exact HipS|exact (proj2 (Rfr2_ne _ _ _ (cl_fr _ _ _ _ _ _ _ _ _ _ _ _ HCS)))]. }
       assert (HCN : ClA bB B2 (pop_scope env2) sS gN).
-      { unfold gN. change (tl (frames gS)) with (tl (frames (trc name aS gS ij))).
-        eapply (Cl_pop_block bB B2 B1 rb body envL env2 sS (trc name aS gS ij)); [apply Cl_trc; exact HCS|rewrite ElL; exact Htl2|
-          rewrite ElL; discriminate|exact Hne2|exact Eb|exact HbL]. }
+      { destruct (Cl_body_end bB B2 envL env2 sS (trc name aS gS ij) (Cl_weaken _ _ _ _ _ _ _ _ _ _ _ _ (Cl_trc _ _ _ _ _ _ _ _ HCS))
+                    ltac:(rewrite ElL; exact Htl2) HneL Hne2 HbL (Hnames2 bB HleB)) as [_ H0]. exact H0. }
       assert (EfN : frames gN = F2 :: R).
-      { cbn [gN with_frames frames]. change (frames gS) with (frames g2'). rewrite TB. change (frames gct) with (frames gc). now rewrite Efc, EfL. }
-      assert (Ecp : cells gp = cells gL) by (cbn [gp push_frame with_frames cells gct trc add_trace]; exact Ecc).
+      { cbn [gN with_frames frames]. change (frames gS) with (frames g2'). rewrite TB. exact Efct. }
       assert (Hcne : ce <> c'x) by (intros E; apply (HcnL cx KD); rewrite E; exact HbxL).
       assert (SMN : smid bL sL aL gL bB sS (set_ip aS kc) gN).
       { unfold smid. split; [eapply xrun_trans; [exact R0B|]; eapply xrun_trans; [exact RM|]; eapply xrun_trans; [exact RS|exact RN]|].
@@ -2280,17 +2628,57 @@ Proof.
         assert (N.to_nat ce < length (cells gL)) by (apply nth_error_Some; unfold cell_get in HceL; congruence). rewrite Ecp in H2. lia. }
       eapply spost_seq; [exact SMN|split; [rewrite Epop, ElL; reflexivity|rewrite Epop; discriminate]|].
       apply IH; [exact Epop|exact HCN|exact EfN|reflexivity|cbn [set_ip aS aM upd set_ops a_cb]; exact HcbB| |exact HbxB|exact HceN|exact HcnN].
-      cbn [set_ip aS aM upd set_ops a_ss]. cbn [ap a0' ac set_ss set_ip set_ops upd a_ss] in SB. lia.
+      cbn [set_ip aS aM upd set_ops a_ss]. cbn [ap a0' ac set_ss set_ip set_ops upd a_ss] in SB. lia. }
+    destruct (exec_block fuel (push_scope envL) body sL) as [sig env2 s2|f s2|]; cbn [spost] in Hbd |- *; [| |exact Logic.I].
+    2:{ eapply fail_post_map; [|exact Hbd]. intros (e0 & g' & Hf & Hr). exists e0, g'.
+        split; [eapply smid_fail; [exact SMc|]; eapply xrun_fail; [exact Rp|exact Hf]|exact Hr]. }
+    destruct Hbd as ([Htl2 Hne2] & H). cbn [push_scope locals tl] in Htl2. rewrite ElL in Htl2.
+    assert (Epop : locals (pop_scope env2) = lL) by exact Htl2.
+    assert (Hdel0 : assoc_del x (assoc_set x cx sc0) = sc0) by (apply assoc_del_set_absent; exact (proj1 Hsc0)).
+    assert (Hbxt : forall bB, bext bL bB sL gp -> bext bL bB sL gL).
+    { intros bB [E1 E2]. split; [exact E1|]. intros c c' k1' Hbc. destruct (E2 c c' k1' Hbc) as [H0|[H1 H2]]; [now left|right; rewrite <- Ecp; auto]. }
+    destruct sig as [| | |[v|]].
+    - (* the body ends normally *)
+      destruct H as (_ & a2' & g2' & bB & SMB & HipB & HopsB & HCB0).
+      apply (Hstep bB s2 a2' g2' env2 (jmid_of_smid _ _ _ _ _ _ _ _ SMB) HipB HopsB (Cl_weaken _ _ _ _ _ _ _ _ _ _ _ _ HCB0)); [|exact Htl2|exact Hne2].
+      unfold smid in SMB. exact (proj1 (proj2 (proj2 SMB))).
+    - (* break: leave the loop through the delete *)
+      destruct H as (m & aK & gK & bK & HslK & _ & J & Hip2K & Hops2K & HC2K & Hf2K). inversion HslK; subst m.
+      rewrite popn_1 in HC2K. cbn [gp push_frame with_frames frames skipn] in Hf2K.
+      unfold jmid in J. destruct J as (RB & EB & AB & SB & KB & LB).
+      assert (HC2B : ClA bK B2 (pop_scope env2) s2 gK).
+      { apply (Cl_B_of path prog cb CD base name SF bK B2 (pop_scope env2) s2 gK HC2K). intros y k E.
+        destruct (Hnames2 bK (proj1 EB) y k E) as (Hy & c & c' & A1 & A2). split; [exact Hy|]. exists c, c'. split; [|exact A2].
+        rewrite Epop, <- ElL. exact A1. }
+      destruct (Hexit aK gK (pop_scope env2) s2 bK Epop HC2B ltac:(rewrite Hf2K; exact Efct) Hip2K) as (g6 & R6 & HC6 & Ef6 & Ec6 & El6).
+      split; [exact (Hd0 _ _ ElL El6)|]. split; [exact (HbX _ El6)|].
+      exists (set_ip aK (S kd)), g6, bK. split; [|split; [reflexivity|split; [exact Hops2K|exact HC6]]].
+      eapply smid_trans; [exact SMc|]. unfold smid. split; [eapply xrun_trans; [exact Rp|]; eapply xrun_trans; [exact RB|exact R6]|].
+      split; [destruct EB as [E1 E2]; split; [exact E1|]; intros c c' k1' Hbc; destruct (E2 c c' k1' Hbc) as [H0|[H1 H2]]; [now left|right; auto]|].
+      split; [rewrite Ef6, Efc, EfL; reflexivity|].
+      split; [destruct AB as (X1 & X2 & X3); cbn [ap a0' ac set_ss set_ip set_ops upd a_fn a_args a_cb] in X1, X2, X3; repeat split; assumption|].
+      split; [cbn [ac upd set_ops set_ip a_ss]; cbn [ap a0' ac set_ss set_ip set_ops upd a_ss] in SB; lia|].
+      split; [intros c' w0 Hc' Hn0; unfold cell_get; rewrite Ec6; apply KB; [exact Hc'|exact Hn0]|].
+      destruct LB as [L1 L2]. split; [exact L1|rewrite Ec6; exact L2].
+    - (* continue: on to the step *)
+      destruct H as (m & aK & gK & bK & HslK & _ & J & Hip2K & Hops2K & HC2K & Hf2K). inversion HslK; subst m.
+      cbn [Nat.sub] in HC2K. rewrite popn_0 in HC2K. cbn [gp push_frame with_frames frames skipn] in Hf2K.
+      exact (Hstep bK s2 aK gK env2 J Hip2K Hops2K HC2K Hf2K Htl2 Hne2).
     - (* return from inside the loop *)
       destruct H as (a' & g' & b' & w & k & RB & HiB & HopsB & EB & HhB & HvB & HkB & HoB & HdrB & KB & LB).
-      assert (Hdel0 : assoc_del x (assoc_set x cx sc0) = sc0) by (apply assoc_del_set_absent; exact (proj1 Hsc0)).
-      assert (Ecp : cells gp = cells gL) by (cbn [gp push_frame with_frames cells gct trc add_trace]; exact Ecc).
-      cbn [spost]. split.
+      split.
       { unfold undeclare. rewrite Epop. cbn [locals lL]. rewrite Hdel0. split; [rewrite ElL; reflexivity|discriminate]. }
       exists a', g', b', w, k. split; [eapply xrun_trans; [exact Rc|]; eapply xrun_trans; [exact Rp|exact RB]|].
-      split; [exact HiB|]. split; [exact HopsB|].
-      split; [destruct EB as [E1 E2]; split; [exact E1|]; intros c c' k1' Hbc; destruct (E2 c c' k1' Hbc) as [H0|[H1 H2]]; [now left|right; rewrite <- Ecp; auto]|].
+      split; [exact HiB|]. split; [exact HopsB|]. split; [exact (Hbxt _ EB)|].
       split; [exact HhB|]. split; [exact HvB|]. split; [exact HkB|]. split; [exact HoB|]. split; [exact HdrB|]. split.
+      + intros c' w0 Hc' Hn0. apply KB; [unfold cell_get in *; rewrite Ecp; exact Hc'|exact Hn0].
+      + destruct LB as [L1 L2]. split; [exact L1|rewrite <- Ecp; exact L2].
+    - destruct H as (a' & g' & b' & RB & HiB & HopsB & EB & HhB & HkB & HoB & HdrB & KB & LB).
+      split.
+      { unfold undeclare. rewrite Epop. cbn [locals lL]. rewrite Hdel0. split; [rewrite ElL; reflexivity|discriminate]. }
+      exists a', g', b'. split; [eapply xrun_trans; [exact Rc|]; eapply xrun_trans; [exact Rp|exact RB]|].
+      split; [exact HiB|]. split; [exact HopsB|]. split; [exact (Hbxt _ EB)|].
+      split; [exact HhB|]. split; [exact HkB|]. split; [exact HoB|]. split; [exact HdrB|]. split.
       + intros c' w0 Hc' Hn0. apply KB; [unfold cell_get in *; rewrite Ecp; exact Hc'|exact Hn0].
       + destruct LB as [L1 L2]. split; [exact L1|rewrite <- Ecp; exact L2]. }
   (* ---- put the pieces together *)
@@ -2305,22 +2693,22 @@ Proof.
   apply (stmt_ind' (fun _ => True) sspec); try (intros; exact Logic.I).
   - intros x e _. apply assign_sim.
   - intros x e _. apply modify_sim.
-  - intros x o e _ b B lr k0 fuel kp a g env s B' rets Hfu Hk. discriminate.
+  - intros x o e _. apply opassign_sim.
   - intros e _. apply print_sim.
-  - intros e sp _ b B lr k0 fuel kp a g env s B' rets Hfu Hk. discriminate.
+  - intros e sp _. apply assert_sim.
   - intros e _. apply expr_sim.
   - intros cnd body _ Hb. apply if_sim. apply bspec_of. exact Hb.
   - intros cnd body els _ Hb He. apply ifelse_sim; apply bspec_of; assumption.
-  - intros cnd body n _ _ _ b B lr k0 fuel kp a g env s B' rets Hfu Hk. discriminate.
+  - intros cnd body nxt _ Hb Hn. apply ifelif_sim; [apply bspec_of; exact Hb|exact Hn].
   - intros cnd body _ Hb. apply while_sim. apply bspec_of. exact Hb.
   - intros a0 b0 incl step nm collide body _ _ _ Hbody.
-    destruct step as [e|]; [intros b B lr k0 fuel kp a g env s B' rets Hfu Hk; discriminate|].
-    destruct nm as [x|]; [|intros b B lr k0 fuel kp a g env s B' rets Hfu Hk; discriminate].
-    destruct collide; [intros b B lr k0 fuel kp a g env s B' rets Hfu Hk; discriminate|].
+    destruct step as [e|]; [intros b B lr il sl bt ct k0 fuel kp a g env s B' rets Hfu Hk; discriminate|].
+    destruct nm as [x|]; [|intros b B lr il sl bt ct k0 fuel kp a g env s B' rets Hfu Hk; discriminate].
+    destruct collide; [intros b B lr il sl bt ct k0 fuel kp a g env s B' rets Hfu Hk; discriminate|].
     apply from_sim. apply bspec_of. exact Hbody.
-  - intros b B lr k0 fuel kp a g env s B' rets Hfu Hk. discriminate.
-  - intros b B lr k0 fuel kp a g env s B' rets Hfu Hk. discriminate.
-  - intros [e|] _; [apply return_sim|]. intros b B lr k0 fuel kp a g env s B' rets Hfu Hk. discriminate.
+  - apply break_sim.
+  - apply continue_sim.
+  - intros [e|] _; [apply return_sim|apply return_none_sim].
 Qed.
 Theorem bspec_all : forall l, bspec l.
 Proof. intros l. apply bspec_of. apply Forall_forall. intros st _. apply sspec_all. Qed.
